@@ -8,7 +8,8 @@ Variable nt : natives.
 Variable code : list instr.
 
 Notation steps := (steps nt code).
-Notation G := (G nt code).
+Notation G2 := (G2 nt code).
+Notation G c ws T := (Gen.G2 nt code c ws T T).
 Notation Tend := (Tend nt code).
 Notation at_ := (at_ code).
 Notation code_at := (code_at code).
@@ -18,7 +19,7 @@ Notation den := (den nt).
 Ltac one lem := eapply steps_step; [eapply lem; eauto|].
 Ltac uncons H A := let H' := fresh "Hat" in destruct (code_at_cons _ _ _ _ H) as [A H']; clear H; rename H' into H.
 Ltac impl_intro :=
-  intros sc cur base Hfr ce pc nv sn cq nv' sn' Hc Hat rho v st fk vs n n0 o ko g K P HE Hn Hko Hoo Hlen HK1 HK2 c [S1 S2] HP;
+  intros sc cur base Hfr ce pc nv sn cq nv' sn' Hc Hat rho v st fk vs n n0 o ko g K K0 P HE Hn Hko Hoo Hlen HK1 HK2 HK0 c [S1 S2] HP;
   pose proof (proj1 Hfr) as Hcur.
 Ltac cl := first [apply cle_refl | unfold cle; simpl; lia].
 
@@ -50,27 +51,34 @@ Proof.
   intros sc ce rho n0 lim o P O a b m g m' g' HP HO (E & Hn & Hl & Hp) C Hm.
   split; [eapply envOK_chg; eauto|]. split; [destruct Hm; lia|]. split; [destruct C; lia|]. eapply HP; eauto.
 Qed.
-Lemma Jstd_keep : forall c sc ce rho n0 lim o (P : list sv -> nat -> gx -> Prop) a b m g m' g',
-  (forall x y k h k' h', P x k h -> keepK c x y -> cle k h k' h' -> P y k' h') ->
-  (forall i, kept sc ce i -> g_keep c i) ->
-  Jstd sc ce rho n0 lim o P a m g -> keepK c a b -> cle m g m' g' -> Jstd sc ce rho n0 lim o P b m' g'.
+Lemma Jstd_keep : forall (Kx : nat -> Prop) sc ce rho n0 lim o (P : list sv -> nat -> gx -> Prop) a b m g m' g',
+  (forall x y k h k' h', P x k h -> keepX Kx x y -> cle k h k' h' -> P y k' h') ->
+  (forall i, kept sc ce i -> Kx i) ->
+  Jstd sc ce rho n0 lim o P a m g -> keepX Kx a b -> cle m g m' g' -> Jstd sc ce rho n0 lim o P b m' g'.
 Proof.
-  intros c sc ce rho n0 lim o P a b m g m' g' HP HK (E & Hn & Hl & Hp) C Hm.
+  intros Kx sc ce rho n0 lim o P a b m g m' g' HP HK (E & Hn & Hl & Hp) C Hm.
   split; [eapply envOK_keep; eauto|]. split; [destruct Hm; lia|]. split; [destruct C; lia|]. eapply HP; eauto.
 Qed.
 
 (* the caller's P is stable under any write inside the segment's own range or above its entry offset, and
-   under any continuation keeping K and the area from ko on *)
-Lemma stable_sub : forall sc pc' st fk lo hi o ko K ce n0 t (P : list sv -> nat -> gx -> Prop),
-  stable (ctx_of sc pc' st fk lo hi o ko K ce n0 t) P ->
+   under any continuation keeping at least K0 *)
+Lemma stable_sub : forall sc pc' st fk lo hi o ko K K0 ce n0 t (P : list sv -> nat -> gx -> Prop),
+  stable (ctx_of sc pc' st fk lo hi o ko K K0 ce n0 t) P ->
   (forall (O : nat -> Prop) x y k h k' h', (forall i, O i -> lo <= i < hi \/ o <= i) -> P x k h -> chg O x y -> cle k h k' h' -> P y k' h') /\
-  (forall cx (o3 : nat) x y k h k' h', g_keep cx = K -> g_koff cx = ko -> o <= o3 -> P x k h -> keepK cx x y -> cle k h k' h' -> P y k' h').
+  (forall (Kx : nat -> Prop) x y k h k' h', (forall i, K0 i -> Kx i) -> P x k h -> keepX Kx x y -> cle k h k' h' -> P y k' h').
 Proof.
-  intros sc pc' st fk lo hi o ko K ce n0 t P [S1 S2]. split.
+  intros sc pc' st fk lo hi o ko K K0 ce n0 t P [S1 S2]. split.
   - intros O x y k h k' h' HO Hp C Hk. eapply S1; [exact Hp| |exact Hk]. eapply chg_mono; [|exact C]. exact HO.
-  - intros cx o3 x y k h k' h' HK Hko Ho Hp C Hk. refine (S2 x y k h k' h' Hp _ Hk).
-    unfold keepK in *. simpl. rewrite <- HK. exact C.
+  - intros Kx x y k h k' h' HK Hp C Hk. refine (S2 x y k h k' h' Hp _ Hk).
+    unfold keepK0. simpl. eapply keepX_mono; [|exact C]. exact HK.
 Qed.
+
+Lemma wk_K0 : forall (fk' : list fork) (K K0 : nat -> Prop) i, (forall i, K0 i -> K i) -> K0 i -> match fk' with [] => K0 | _ => K end i.
+Proof. intros [|? ?] K K0 i H Hi; auto. Qed.
+Lemma wk_K : forall (fk' : list fork) (K K0 : nat -> Prop) i, (forall i, K0 i -> K i) -> match fk' with [] => K0 | _ => K end i -> K i.
+Proof. intros [|? ?] K K0 i H Hi; auto. Qed.
+Lemma wk_same : forall (fk' : list fork) (P : list sv -> nat -> gx -> Prop), wk fk' P P = P.
+Proof. intros [|? ?] P; reflexivity. Qed.
 
 Lemma impl_id : Impl QId.
 Proof.
@@ -151,88 +159,140 @@ Proof.
   - auto.
 Qed.
 
-(* G_fold with the standard side conditions discharged *)
-Lemma fold_std : forall sc pc1 st1 lo1 hi1 pc' st fk lo hi o ko K ce n0 t rho lim (P : list sv -> nat -> gx -> Prop)
-   (X : Type) (Jg : X -> list sv -> Prop) (fb : X -> jv -> list jv * option exn * X)
+Lemma wk_keep0 : forall c ownb0 ceb fk' o t (J Jf : list sv -> nat -> gx -> Prop),
+  (forall a b m x m' x', J a m x -> keepK c a b -> cle m x m' x' -> J b m' x') ->
+  (forall a b m x m' x', Jf a m x -> keepK0 c a b -> cle m x m' x' -> Jf b m' x') ->
+  forall a b m x m' x', wk fk' J Jf a m x -> keepK0 (cbody c ownb0 ceb fk' o t) a b -> cle m x m' x' -> wk fk' J Jf b m' x'.
+Proof. intros c ownb0 ceb [|f0 fk0] o t J Jf H1 H2 a b m x m' x' Hw Kp Hm; simpl in *; eauto. Qed.
+Lemma wk_intro : forall fk' (J Jf : list sv -> nat -> gx -> Prop) a m x,
+  (forall a m x, J a m x -> Jf a m x) -> J a m x -> wk fk' J Jf a m x.
+Proof. intros [|f0 fk0] J Jf a m x H Hj; simpl; auto. Qed.
+Lemma wk_chg : forall fk' (J Jf : list sv -> nat -> gx -> Prop) (O : nat -> Prop),
+  (forall a b m x m' x', J a m x -> chg O a b -> cle m x m' x' -> J b m' x') ->
+  (forall a b m x m' x', Jf a m x -> chg O a b -> cle m x m' x' -> Jf b m' x') ->
+  forall a b m x m' x', wk fk' J Jf a m x -> chg O a b -> cle m x m' x' -> wk fk' J Jf b m' x'.
+Proof. intros [|f0 fk0] J Jf O H1 H2 a b m x m' x' Hw C Hm; simpl in *; eauto. Qed.
+
+(* G_fold with the standard side conditions discharged.  Jg: the part of the invariant about the slots of the
+   composition (kept while it has pending forks); Jgf: what remains of it after a continuation that ran when no
+   fork of the composition was left.  The bodies get the two facts they need about the tail predicate *)
+Lemma fold_std : forall sc pc1 st1 lo1 hi1 pc' st fk lo hi o ko K K0 ce n0 t rho lim (P Jw : list sv -> nat -> gx -> Prop)
+   (X : Type) (Jg Jgf : X -> list sv -> Prop) (fb : X -> jv -> list jv * option exn * X)
    (ownb0 : nat -> Prop) (ceb : cenv),
-   let c := ctx_of sc pc' st fk lo hi o ko K ce n0 t in
-   let c1 := ctx_of sc pc1 st1 fk lo1 hi1 o o (fun i => lo1 <= i < hi1 \/ kept sc ce i) ce n0 t in
+   let c := ctx_of sc pc' st fk lo hi o ko K K0 ce n0 t in
+   let c1 := ctx_of sc pc1 st1 fk lo1 hi1 o o (fun i => lo1 <= i < hi1 \/ kept sc ce i) (fun _ => False) ce n0 t in
    let J := fun g a m x => Jstd sc ce rho n0 lim o P a m x /\ Jg g a in
+   let Jf := fun g a m x => Jw a m x /\ Jgf g a in
    stable c P -> lo <= lo1 -> hi1 <= hi -> hi <= ko -> ko <= o -> lim <= lo -> lo <= hi ->
-   (forall i, kept sc ce i -> i < lim) -> (forall i, lo <= i < hi -> K i) -> (forall i, kept sc ce i -> K i) ->
+   (forall i, kept sc ce i -> i < lim) -> (forall i, lo <= i < hi -> K i) -> (forall i, kept sc ce i -> K i) -> (forall i, K0 i -> K i) ->
    (forall i, ownb0 i -> lo <= i < hi /\ ~ (lo1 <= i < hi1)) ->
    ce_lbls ceb = ce_lbls ce ->
+   (forall a m x, Jstd sc ce rho n0 lim o P a m x -> Jw a m x) ->
+   (forall a b m x m' x', Jw a m x -> chg (fun i => lo1 <= i < hi1 \/ o <= i) a b -> cle m x m' x' -> Jw b m' x') ->
+   (forall a b m x m' x', Jw a m x -> keepX K0 a b -> cle m x m' x' -> Jw b m' x') ->
    (forall g a b, Jg g a -> chg (fun i => lo1 <= i < hi1 \/ o <= i) a b -> Jg g b) ->
+   (forall g a b, Jgf g a -> chg (fun i => lo1 <= i < hi1 \/ o <= i) a b -> Jgf g b) ->
+   (forall g a b, Jg g a -> keepX K a b -> Jg g b) ->
+   (forall g a b, Jgf g a -> keepX K0 a b -> Jgf g b) ->
+   (forall g a, Jg g a -> Jgf g a) ->
    (forall w g fk' vs n o' x os xx g', J g vs n x -> o <= o' <= length vs -> t <= ctr x -> Forall (fun f => t <= f_ctr f) fk' ->
         fb g w = (os, xx, g') ->
-        G (cbody c ownb0 ceb fk' o' (ctr x)) os (Tend (cbody c ownb0 ceb fk' o' (ctr x)) xx (J g'))
+        (forall a b m y m' y', wk fk' (J g') (Jf g') a m y -> keepK0 (cbody c ownb0 ceb fk' o' (ctr x)) a b -> cle m y m' y' ->
+                               wk fk' (J g') (Jf g') b m' y') ->
+        (forall a m y, J g' a m y -> wk fk' (J g') (Jf g') a m y) ->
+        G (cbody c ownb0 ceb fk' o' (ctr x)) os (Tend (cbody c ownb0 ceb fk' o' (ctr x)) xx (wk fk' (J g') (Jf g')))
           (N sc pc1 (SV w :: st1) (fk' ++ fk) vs n o' x)) ->
    forall ws1 g s fin1 os x g',
      G c1 ws1 (Tend c1 fin1 (fun _ _ _ => True)) s -> J g (vars_of s) (lbl_of s) (gx_of s) -> t <= ctr (gx_of s) ->
      foldgen X fb ws1 g = (os, x, g') ->
-     G c os (Tend c (match x with Some e => Some e | None => fin1 end) (J g')) s.
+     G c os (Tend c (match x with Some e => Some e | None => fin1 end) (Jf g')) s.
 Proof.
-  intros sc pc1 st1 lo1 hi1 pc' st fk lo hi o ko K ce n0 t rho lim P X Jg fb ownb0 ceb c c1 J HS H1 H2 H3 H4 H5 H6 Hkl HK1 HK2 Hob Hlb HJg Hbody
-         ws1 g s fin1 os x g' HA HJ Ht Ef.
-  destruct (stable_sub _ _ _ _ _ _ _ _ _ _ _ _ _ HS) as [S1' S2'].
-  refine (G_fold nt code c1 c X J fb ownb0 ceb eq_refl eq_refl eq_refl eq_refl eq_refl eq_refl eq_refl H4
-            _ _ _ _ _ Hlb _ _ Hbody ws1 g s fin1 os x g' HA HJ Ht Ef).
+  intros sc pc1 st1 lo1 hi1 pc' st fk lo hi o ko K K0 ce n0 t rho lim P Jw X Jg Jgf fb ownb0 ceb c c1 J Jf HS H1 H2 H3 H4 H5 H6 Hkl HK1 HK2 HK0 Hob Hlb
+         HJw HJw1 HJwK HJg HJgf HJgK HJgfK HJJ Hbody ws1 g s fin1 os x g' HA HJ Ht Ef.
+  destruct (stable_sub _ _ _ _ _ _ _ _ _ _ _ _ _ _ HS) as [S1' S2'].
+  assert (JJf : forall g0 a m x0, J g0 a m x0 -> Jf g0 a m x0).
+  { intros g0 p m x0 [Hj Hg]. split; auto. }
+  assert (JK : forall g0 a b m x0 m' x0', J g0 a m x0 -> keepK c a b -> cle m x0 m' x0' -> J g0 b m' x0').
+  { intros g0 p q m x0 m' x0' [Hj Hg] C Hm. split; [|eapply HJgK; eauto].
+    refine (Jstd_keep K _ _ _ _ _ _ _ _ _ _ _ _ _ _ HK2 Hj C Hm).
+    intros x1 y k h k' h' Hp Kq Hk. exact (S2' K x1 y k h k' h' HK0 Hp Kq Hk). }
+  assert (JfK : forall g0 a b m x0 m' x0', Jf g0 a m x0 -> keepK0 c a b -> cle m x0 m' x0' -> Jf g0 b m' x0').
+  { intros g0 p q m x0 m' x0' [Hp Hg] C Hm. split; [eapply HJwK; eauto|eapply HJgfK; eauto]. }
+  refine (G_fold nt code c1 c X J Jf fb ownb0 ceb eq_refl eq_refl eq_refl eq_refl eq_refl eq_refl eq_refl H4
+            _ _ _ _ _ _ Hlb _ _ JJf _ _ ws1 g s fin1 os x g' HA HJ Ht Ef).
   - simpl; intros; lia.
   - simpl. intros i Hi. apply Hob in Hi. lia.
   - simpl; intros; lia.
   - simpl. intros i [Hi|Hi]; (split; [|split]).
     + apply HK1; lia. + intro Ho. apply Hob in Ho. tauto. + lia.
     + apply HK2; auto. + intro Ho. apply Hob in Ho. apply Hkl in Hi. lia. + apply Hkl in Hi. lia.
+  - simpl. intros i [].
   - simpl. intros i Hi. apply Hkl in Hi. lia.
   - intros g0 p q m x0 m' x0' [Hj Hg] C Hm. split; [|eapply HJg; eauto].
     refine (Jstd_chg _ _ _ _ _ _ _ _ _ _ _ _ _ _ (fun x y k h k' h' => S1' _ x y k h k' h' _) _ Hj C Hm); simpl; intros; lia.
+  - intros g0 p q m x0 m' x0' [Hp Hg] C Hm. split; [eapply HJw1; eauto|eapply HJgf; eauto].
   - intros g0 p m x0 [(E & _) _]. eapply envOK_lblOK; eauto.
+  - intros w g0 fk' vs' n' o' x0 os' x' g1 Hj Ho' Ht' Hfk Efb.
+    apply (Hbody w g0 fk' vs' n' o' x0 os' x' g1 Hj Ho' Ht' Hfk Efb).
+    + apply wk_keep0; [apply JK|apply JfK].
+    + intros p m y Hq. apply wk_intro; auto.
 Qed.
 
 (* an Impl used as inner generator *)
 Lemma impl_inner : forall q, Impl q -> forall sc cur base, frameOK sc cur base ->
   forall ce pc nv sn cq nv' sn', comp q ce cur pc nv sn = Some (cq, nv', sn') -> code_at pc cq ->
   forall rho v st fk vs n n0 o g, envOK sc ce rho vs n0 (base + nv) -> n0 <= n -> base + nv' <= o -> o <= length vs ->
-  let c1 := ctx_of sc (pc + length cq) st fk (base + nv) (base + nv') o o (fun i => base + nv <= i < base + nv' \/ kept sc ce i) ce n0 (ctr g) in
+  let c1 := ctx_of sc (pc + length cq) st fk (base + nv) (base + nv') o o (fun i => base + nv <= i < base + nv' \/ kept sc ce i) (fun _ => False) ce n0 (ctr g) in
   G c1 (fst (den q rho v)) (Tend c1 (snd (den q rho v)) (fun _ _ _ => True)) (N sc pc (SV v :: st) fk vs n o g).
 Proof.
   intros q IH sc cur base Hfr ce pc nv sn cq nv' sn' Ec Hat rho v st fk vs n n0 o g HE Hn Ho Hl c1. pose proof (proj1 Hfr) as Hcur.
-  apply (IH sc cur base Hfr ce pc nv sn cq nv' sn' Ec Hat rho v st fk vs n n0 o o g _ (fun _ _ _ => True)); auto.
-  split; auto.
+  apply (IH sc cur base Hfr ce pc nv sn cq nv' sn' Ec Hat rho v st fk vs n n0 o o g _ _ (fun _ _ _ => True)); auto.
+  - intros i [].
+  - split; auto.
 Qed.
 
 (* generic bind: every output of an inner generator starts a body generator; Jg is an additional store
-   invariant the bodies may rely on *)
-Lemma bind_std : forall (f : jv -> result) (Jg : list sv -> Prop) sc pc1 st1 lo1 hi1 pc' st fk lo hi o ko K ce n0 t rho lim
+   invariant the bodies may rely on while the composition has pending forks *)
+Lemma bind_std : forall (f : jv -> result) (Jg : list sv -> Prop) sc pc1 st1 lo1 hi1 pc' st fk lo hi o ko K K0 ce n0 t rho lim
    (P : list sv -> nat -> gx -> Prop) (ownb0 : nat -> Prop) (ceb : cenv),
-   let c := ctx_of sc pc' st fk lo hi o ko K ce n0 t in
-   let c1 := ctx_of sc pc1 st1 fk lo1 hi1 o o (fun i => lo1 <= i < hi1 \/ kept sc ce i) ce n0 t in
+   let c := ctx_of sc pc' st fk lo hi o ko K K0 ce n0 t in
+   let c1 := ctx_of sc pc1 st1 fk lo1 hi1 o o (fun i => lo1 <= i < hi1 \/ kept sc ce i) (fun _ => False) ce n0 t in
    let J := fun a m x => Jstd sc ce rho n0 lim o P a m x /\ Jg a in
+   let Jf := fun a m x => P a m x /\ True in
    stable c P -> lo <= lo1 -> hi1 <= hi -> hi <= ko -> ko <= o -> lim <= lo -> lo <= hi ->
-   (forall i, kept sc ce i -> i < lim) -> (forall i, lo <= i < hi -> K i) -> (forall i, kept sc ce i -> K i) ->
+   (forall i, kept sc ce i -> i < lim) -> (forall i, lo <= i < hi -> K i) -> (forall i, kept sc ce i -> K i) -> (forall i, K0 i -> K i) ->
    (forall i, ownb0 i -> lo <= i < hi /\ ~ (lo1 <= i < hi1)) ->
    ce_lbls ceb = ce_lbls ce ->
    (forall a b, Jg a -> chg (fun i => lo1 <= i < hi1 \/ o <= i) a b -> Jg b) ->
+   (forall a b, Jg a -> keepX K a b -> Jg b) ->
    (forall w fk' vs n o' x, J vs n x -> o <= o' <= length vs -> t <= ctr x -> Forall (fun f => t <= f_ctr f) fk' ->
-        G (cbody c ownb0 ceb fk' o' (ctr x)) (fst (f w)) (Tend (cbody c ownb0 ceb fk' o' (ctr x)) (snd (f w)) J)
+        (forall a b m y m' y', wk fk' J Jf a m y -> keepK0 (cbody c ownb0 ceb fk' o' (ctr x)) a b -> cle m y m' y' -> wk fk' J Jf b m' y') ->
+        (forall a m y, J a m y -> wk fk' J Jf a m y) ->
+        G (cbody c ownb0 ceb fk' o' (ctr x)) (fst (f w)) (Tend (cbody c ownb0 ceb fk' o' (ctr x)) (snd (f w)) (wk fk' J Jf))
           (N sc pc1 (SV w :: st1) (fk' ++ fk) vs n o' x)) ->
    forall r s, G c1 (fst r) (Tend c1 (snd r) (fun _ _ _ => True)) s -> J (vars_of s) (lbl_of s) (gx_of s) -> t <= ctr (gx_of s) ->
-     G c (fst (bind r f)) (Tend c (snd (bind r f)) (fun a m x => P a m x /\ Jg a)) s.
+     G c (fst (bind r f)) (Tend c (snd (bind r f)) P) s.
 Proof.
-  intros f Jg sc pc1 st1 lo1 hi1 pc' st fk lo hi o ko K ce n0 t rho lim P ownb0 ceb c c1 J HS H1 H2 H3 H4 H5 H6 Hkl HK1 HK2 Hob Hlb HJg Hbody r s HA HJ Ht.
+  intros f Jg sc pc1 st1 lo1 hi1 pc' st fk lo hi o ko K K0 ce n0 t rho lim P ownb0 ceb c c1 J Jf HS H1 H2 H3 H4 H5 H6 Hkl HK1 HK2 HK0 Hob Hlb HJg HJgK Hbody r s HA HJ Ht.
   set (fb := fun (_ : unit) w => (fst (f w), snd (f w), tt)).
   unfold bind.
   pose proof (foldgen_bind f (fst r)) as Ef. fold fb in Ef.
   destruct (bind_list (fst r) f) as [os x] eqn:Eb. cbn [fst snd] in Ef.
-  pose proof (fold_std sc pc1 st1 lo1 hi1 pc' st fk lo hi o ko K ce n0 t rho lim P
-                unit (fun _ => Jg) fb ownb0 ceb HS H1 H2 H3 H4 H5 H6 Hkl HK1 HK2 Hob Hlb (fun _ a b => HJg a b)) as HF.
+  destruct (stable_sub _ _ _ _ _ _ _ _ _ _ _ _ _ _ HS) as [S1' S2'].
+  pose proof (fold_std sc pc1 st1 lo1 hi1 pc' st fk lo hi o ko K K0 ce n0 t rho lim P P
+                unit (fun _ => Jg) (fun _ _ => True) fb ownb0 ceb HS H1 H2 H3 H4 H5 H6 Hkl HK1 HK2 HK0 Hob Hlb
+                (fun a m x Hj => proj2 (proj2 (proj2 Hj)))
+                (fun a b m x m' x' Hp C Hm => S1' (fun i => lo1 <= i < hi1 \/ o <= i) a b m x m' x' ltac:(simpl; intros; lia) Hp C Hm)
+                (fun a b m x m' x' Hp C Hm => S2' K0 a b m x m' x' (fun i H => H) Hp C Hm)
+                (fun _ a b => HJg a b)
+                (fun _ _ _ _ _ => I) (fun _ a b => HJgK a b) (fun _ _ _ _ _ => I) (fun _ _ _ => I)) as HF.
   cbv zeta in HF.
-  assert (HG' : G c os (Tend c (match x with Some e => Some e | None => snd r end) J) s).
+  assert (HG' : G c os (Tend c (match x with Some e => Some e | None => snd r end) Jf) s).
   { refine (HF _ (fst r) tt s (snd r) os x tt HA HJ Ht Ef).
-    intros w g fk' vs' n' o' x0 os' x' g' Hj Ho' Ht' Hfk Efb. unfold fb in Efb. inversion Efb; subst os' x' g'.
+    intros w g fk' vs' n' o' x0 os' x' g' Hj Ho' Ht' Hfk Efb Hwk Hin. unfold fb in Efb. inversion Efb; subst os' x' g'.
     apply Hbody; auto. }
   destruct x as [e|]; (eapply G_impl; [|exact HG']); intros s0; apply Tend_weaken;
-    intros p m x0 ((_ & _ & _ & Hp) & Hg); auto.
+    intros p m x0 (Hp & Hg); auto.
 Qed.
 
 (* an Impl used as (part of) a body, in an arbitrary context whose own set contains its range *)
@@ -242,18 +302,19 @@ Lemma impl_body : forall q, Impl q -> forall sc cur base, frameOK sc cur base ->
     g_sc cx = sc -> g_pc cx = pcq + length cq -> ce_lbls (g_ce cx) = ce_lbls ceq -> g_off cx = o ->
     (forall i, base + nvq <= i < base + nvq' \/ o <= i -> g_own cx i) ->
     (forall i, base + nvq <= i < base + nvq' -> g_keep cx i) -> (forall i, kept sc ceq i -> g_keep cx i) ->
+    (forall i, g_keep0 cx i -> g_keep cx i) ->
     envOK sc ceq rhoq vs (g_n0 cx) (base + nvq) -> g_n0 cx <= n -> base + nvq' <= g_koff cx -> g_koff cx <= o ->
     o <= length vs -> g_ctr cx <= ctr g ->
     (forall a b m x m' x', P a m x -> chg (fun i => base + nvq <= i < base + nvq' \/ o <= i) a b -> cle m x m' x' -> P b m' x') ->
-    (forall (o3 : nat) a b m x m' x', o <= o3 -> P a m x -> keepK cx a b -> cle m x m' x' -> P b m' x') ->
+    (forall a b m x m' x', P a m x -> keepK0 cx a b -> cle m x m' x' -> P b m' x') ->
     P vs n g ->
     G cx (fst (den q rhoq v)) (Tend cx (snd (den q rhoq v)) P) (N sc pcq (SV v :: g_st cx) (g_base cx) vs n o g).
 Proof.
-  intros q IH sc cur base Hfr ceq pcq nvq sn cq nvq' sn' Ec Hat cx rhoq v vs n o g P Hsc Hpc Hlb Hoff Hown Hk1 Hk2 HE Hn Hko Hoo Hl Hct HP1 HP2 HP. pose proof (proj1 Hfr) as Hcur.
+  intros q IH sc cur base Hfr ceq pcq nvq sn cq nvq' sn' Ec Hat cx rhoq v vs n o g P Hsc Hpc Hlb Hoff Hown Hk1 Hk2 Hk0 HE Hn Hko Hoo Hl Hct HP1 HP2 HP. pose proof (proj1 Hfr) as Hcur.
   pose proof (IH sc cur base Hfr ceq pcq nvq sn cq nvq' sn' Ec Hat rhoq v (g_st cx) (g_base cx) vs n (g_n0 cx) o (g_koff cx) g
-                (g_keep cx) P HE Hn Hko Hoo Hl Hk1 Hk2) as H.
+                (g_keep cx) (g_keep0 cx) P HE Hn Hko Hoo Hl Hk1 Hk2 Hk0) as H.
   cbv zeta in H.
-  refine (G_sub nt code (ctx_of sc (pcq + length cq) (g_st cx) (g_base cx) (base + nvq) (base + nvq') o (g_koff cx) (g_keep cx) ceq (g_n0 cx) (ctr g))
+  refine (G_sub nt code (ctx_of sc (pcq + length cq) (g_st cx) (g_base cx) (base + nvq) (base + nvq') o (g_koff cx) (g_keep cx) (g_keep0 cx) ceq (g_n0 cx) (ctr g))
             cx _ _ (eq_sym Hsc) (eq_sym Hpc) eq_refl eq_refl Hown _ _ (le_n _) _ Hct _ _ _ (H _ HP)).
   - intros o3 a b Kp. exact Kp.
   - intros a b Kp. exact Kp.
@@ -261,20 +322,19 @@ Proof.
   - intros s0 (e & vs4 & n4 & g4 & St & Ch & Le & HE4 & HP4). exists e, vs4, n4, g4. simpl in *.
     split; [exact St|]. split; [exact (chg_mono _ _ _ _ Hown Ch)|]. split; [exact Le|]. split; [|exact HP4].
     rewrite Hsc. eapply encR_lbls; [|exact HE4]. auto.
-  - split; [exact HP1|]. intros a b m x m' x' Hp Kp Hm. eapply (HP2 o); eauto.
+  - split; [exact HP1|exact HP2].
 Qed.
 
-(* Jstd is stable in any context that keeps K, the area from ko on, and writes above lim only *)
-Lemma Jstd_stable_cx : forall cx sc ce rho n0 lim o ko lo hi (P : list sv -> nat -> gx -> Prop) K,
+(* Jstd is stable under any continuation that keeps at least K0, where K0 contains the visible slots *)
+Lemma Jstd_stable_cx : forall (Kx : nat -> Prop) sc ce rho n0 lim o lo hi (P : list sv -> nat -> gx -> Prop) (K0 : nat -> Prop),
   (forall (O : nat -> Prop) x y k h k' h', (forall i, O i -> lo <= i < hi \/ o <= i) -> P x k h -> chg O x y -> cle k h k' h' -> P y k' h') ->
-  (forall cx (o3 : nat) x y k h k' h', g_keep cx = K -> g_koff cx = ko -> o <= o3 -> P x k h -> keepK cx x y -> cle k h k' h' -> P y k' h') ->
-  (forall i, kept sc ce i -> K i) -> g_keep cx = K -> g_koff cx = ko ->
-  forall (o3 : nat) a b m g m' g', o <= o3 -> Jstd sc ce rho n0 lim o P a m g -> keepK cx a b -> cle m g m' g' -> Jstd sc ce rho n0 lim o P b m' g'.
+  (forall (Kx : nat -> Prop) x y k h k' h', (forall i, K0 i -> Kx i) -> P x k h -> keepX Kx x y -> cle k h k' h' -> P y k' h') ->
+  (forall i, kept sc ce i -> Kx i) -> (forall i, K0 i -> Kx i) ->
+  forall a b m g m' g', Jstd sc ce rho n0 lim o P a m g -> keepX Kx a b -> cle m g m' g' -> Jstd sc ce rho n0 lim o P b m' g'.
 Proof.
-  intros cx sc ce rho n0 lim o ko lo hi P K S1' S2' HK2 HKe Hko o3 a b m g m' g' Ho Hj Kp Hm.
-  refine (Jstd_keep cx _ _ _ _ _ _ _ _ _ _ _ _ _ _ _ Hj Kp Hm).
-  - intros x y k h k' h' Hp Kq Hk. exact (S2' cx o3 x y k h k' h' HKe Hko Ho Hp Kq Hk).
-  - rewrite HKe. exact HK2.
+  intros Kx sc ce rho n0 lim o lo hi P K0 S1' S2' HK3 HKx a b m g m' g' Hj Kp Hm.
+  refine (Jstd_keep Kx _ _ _ _ _ _ _ _ _ _ _ _ _ _ HK3 Hj Kp Hm).
+  intros x y k h k' h' Hp Kq Hk. exact (S2' Kx x y k h k' h' HKx Hp Kq Hk).
 Qed.
 
 Lemma Jstd_chg' : forall sc ce rho n0 lim o lo hi (P : list sv -> nat -> gx -> Prop) (O : nat -> Prop) a b m g m' g',
@@ -284,6 +344,50 @@ Lemma Jstd_chg' : forall sc ce rho n0 lim o lo hi (P : list sv -> nat -> gx -> P
 Proof.
   intros sc ce rho n0 lim o lo hi P O a b m g m' g' S1' HO Hj C Hm.
   refine (Jstd_chg _ _ _ _ _ _ _ O _ _ _ _ _ _ (fun x y k h k' h' => S1' O x y k h k' h' _) _ Hj C Hm); intros i Hi; apply HO; auto.
+Qed.
+
+(* an Impl run as a body of a composition: while the composition has pending forks (fk') the tail is the
+   standard invariant Jstd /\ Jg; otherwise only the caller's P and the part Jgf survive *)
+Lemma std_body : forall q, Impl q -> forall sc cur base, frameOK sc cur base ->
+  forall ceq pcq nvq sn cq nvq' sn', comp q ceq cur pcq nvq sn = Some (cq, nvq', sn') -> code_at pcq cq ->
+  forall pc' st fk lo hi o ko (K K0 : nat -> Prop) ce n0 t (ownb0 : nat -> Prop) ceb fk' o' x rhoq rho lim
+         (P : list sv -> nat -> gx -> Prop) (Jg Jgf : list sv -> Prop) v' vs' n',
+    pc' = pcq + length cq -> ce_lbls ceb = ce_lbls ceq ->
+    (forall i, base + nvq <= i < base + nvq' -> ownb0 i /\ K i) -> (forall i, kept sc ceq i -> K i) -> (forall i, kept sc ce i -> K i) ->
+    (forall i, K0 i -> K i) ->
+    envOK sc ceq rhoq vs' n0 (base + nvq) -> base + nvq' <= ko -> ko <= o -> lo <= base + nvq -> base + nvq' <= hi ->
+    lim <= base + nvq -> lim <= o ->
+    (forall (O : nat -> Prop) x y k h k' h', (forall i, O i -> lo <= i < hi \/ o <= i) -> P x k h -> chg O x y -> cle k h k' h' -> P y k' h') ->
+    (forall (Kx : nat -> Prop) x y k h k' h', (forall i, K0 i -> Kx i) -> P x k h -> keepX Kx x y -> cle k h k' h' -> P y k' h') ->
+    (forall a b, Jg a -> chg (fun i => base + nvq <= i < base + nvq' \/ o' <= i) a b -> Jg b) ->
+    (forall a b, Jg a -> keepX K a b -> Jg b) ->
+    (forall a b, Jgf a -> chg (fun i => base + nvq <= i < base + nvq' \/ o' <= i) a b -> Jgf b) ->
+    (forall a b, Jgf a -> keepX K0 a b -> Jgf b) ->
+    (forall a, Jg a -> Jgf a) ->
+    Jstd sc ce rho n0 lim o P vs' n' x -> Jg vs' -> o <= o' <= length vs' -> t <= ctr x ->
+    let cb := cbody (ctx_of sc pc' st fk lo hi o ko K K0 ce n0 t) ownb0 ceb fk' o' (ctr x) in
+    G cb (fst (den q rhoq v')) (Tend cb (snd (den q rhoq v'))
+            (wk fk' (fun a m y => Jstd sc ce rho n0 lim o P a m y /\ Jg a) (fun a m y => P a m y /\ Jgf a)))
+      (N sc pcq (SV v' :: st) (fk' ++ fk) vs' n' o' x).
+Proof.
+  intros q IH sc cur base Hfr ceq pcq nvq sn cq nvq' sn' Ec Hat pc' st fk lo hi o ko K K0 ce n0 t ownb0 ceb fk' o' x rhoq rho lim P Jg Jgf v' vs' n'
+         Hpc Hlb Hown HKq HK2 HK0 HEq Hko Hoo Hlo Hhi Hlim Hlimo S1' S2' Jg1 Jg2 Jgf1 Jgf2 JJ Hj Hg Ho' Ht cb. pose proof (proj1 Hfr) as Hcur.
+  pose proof Hj as (E' & Hn' & Hl' & Hp').
+  apply (impl_body q IH sc cur base Hfr ceq pcq nvq sn cq nvq' sn' Ec Hat cb rhoq v' vs' n' o' x); subst cb; simpl; auto; try lia.
+  - intros i [Hi|Hi]; [left; apply Hown; auto|right; auto].
+  - intros i Hi. apply Hown; auto.
+  - intros i Hi. exact (wk_K _ _ _ _ HK0 Hi).
+  - apply wk_chg.
+    + intros a b m y m' y' [Hja Hga] C Hm. split; [|eapply Jg1; eauto].
+      eapply (Jstd_chg' _ _ _ _ _ _ lo hi); [exact S1'| |exact Hja|exact C|exact Hm]. simpl; intros; lia.
+    + intros a b m y m' y' [Hp Hga] C Hm. split; [|eapply Jgf1; eauto].
+      eapply (S1' _ a b m y m' y'); [|exact Hp|exact C|exact Hm]. simpl; intros; lia.
+  - apply wk_keep0.
+    + intros a b m y m' y' [Hja Hga] C Hm. split; [|eapply Jg2; eauto].
+      exact (Jstd_stable_cx _ _ _ _ _ _ _ _ _ _ _ S1' S2' HK2 HK0 _ _ _ _ _ _ Hja C Hm).
+    + intros a b m y m' y' [Hp Hga] C Hm. split; [|eapply Jgf2; eauto].
+      exact (S2' K0 a b m y m' y' (fun i H => H) Hp C Hm).
+  - apply wk_intro; [|split; auto]. intros a m y [(_ & _ & _ & Hp) Hga]. split; auto.
 Qed.
 
 (* the standard body: an Impl run in the body context of a composition, with P := Jstd /\ Jg *)
@@ -301,48 +405,52 @@ Proof.
   inversion Hc; subst cq nv' sn'. clear Hc.
   destruct (code_at_app _ _ _ _ Hat) as [Hata Hatb].
   destruct (comp_mono _ _ _ _ _ _ _ _ _ Ec) as [M1 _]. destruct (comp_mono _ _ _ _ _ _ _ _ _ Ec0) as [M2 _].
-  std_facts. pose proof (conj S1 S2) as HS. destruct (stable_sub _ _ _ _ _ _ _ _ _ _ _ _ _ HS) as [S1' S2'].
+  std_facts. pose proof (conj S1 S2) as HS. destruct (stable_sub _ _ _ _ _ _ _ _ _ _ _ _ _ _ HS) as [S1' S2'].
   subst c. rewrite app_length, Nat.add_assoc in *.
   pose proof (impl_inner a IHa sc cur base Hfr ce pc nv sn ca n1 s1 Ec Hata rho v st fk vs n n0 o g HE Hn ltac:(lia) Hlen) as HA.
   cbv zeta in HA. cbn [Den.den].
-  eapply G_impl; [|refine (bind_std (den b rho) (fun _ => True) sc (pc + length ca) st (base + nv) (base + n1) (pc + length ca + length cb) st fk
-            (base + nv) (base + n2) o ko K ce n0 (ctr g) rho (base + nv) P (fun i => base + n1 <= i < base + n2) ce
-            HS (le_n _) ltac:(lia) Hko Hoo (le_n _) ltac:(lia) Hkl HK1 HK2 _ eq_refl _ _ (den a rho v) _ HA _ (le_n _))].
-  - intros s0. apply Tend_weaken. intros p m x [Hp _]. exact Hp.
+  refine (bind_std (den b rho) (fun _ => True) sc (pc + length ca) st (base + nv) (base + n1) (pc + length ca + length cb) st fk
+            (base + nv) (base + n2) o ko K K0 ce n0 (ctr g) rho (base + nv) P (fun i => base + n1 <= i < base + n2) ce
+            HS (le_n _) ltac:(lia) Hko Hoo (le_n _) ltac:(lia) Hkl HK1 HK2 HK0 _ eq_refl _ _ _ (den a rho v) _ HA _ (le_n _)).
   - intros i Hi. lia.
   - auto.
-  - intros w fk' vs' n' o' x [(E' & Hn' & Hl' & Hp') _] Ho' Ht' Hfk.
-    apply (impl_body b IHb sc cur base Hfr ce (pc + length ca) n1 s1 cb n2 s2 Ec0 Hatb
-             (cbody (ctx_of sc (pc + length ca + length cb) st fk (base + nv) (base + n2) o ko K ce n0 (ctr g))
-                    (fun i => base + n1 <= i < base + n2) ce fk' o' (ctr x)) rho w vs' n' o' x
-             (fun a0 m x0 => Jstd sc ce rho n0 (base + nv) o P a0 m x0 /\ True)); simpl; auto; try lia.
-    + intros; apply HK1; lia.
+  - auto.
+  - intros w fk' vs' n' o' x [Hj _] Ho' Ht' Hfk _ _. pose proof Hj as (E' & Hn' & Hl' & Hp').
+    apply (std_body b IHb sc cur base Hfr ce (pc + length ca) n1 s1 cb n2 s2 Ec0 Hatb (pc + length ca + length cb) st fk (base + nv) (base + n2) o ko K K0 ce n0 (ctr g)
+             (fun i => base + n1 <= i < base + n2) ce fk' o' x rho rho (base + nv) P (fun _ => True) (fun _ => True) w vs' n' eq_refl eq_refl); auto; try lia.
+    + intros i Hi. split; [lia|apply HK1; lia].
     + eapply envOK_lim; eauto. lia.
-    + intros p q m y m' y' [Hj _] C Hm. split; auto.
-      eapply (Jstd_chg' _ _ _ _ _ _ (base + nv) (base + n2)); [exact S1'| |exact Hj|exact C|exact Hm]. simpl; intros; lia.
-    + intros o3 p q m y m' y' Ho3 [Hj _] C Hm. split; auto.
-      refine (Jstd_stable_cx _ _ _ _ _ _ _ _ _ _ _ K S1' S2' HK2 _ _ o3 _ _ _ _ _ _ _ Hj C Hm); [reflexivity|reflexivity|lia].
-    + split; auto. split; auto.
   - split; [|auto]. split; auto.
 Qed.
 
-(* P := Jstd is itself stable in a context whose own range lies inside [lo, hi) *)
-Lemma Jstd_stable : forall sc' pc' st fk lo' hi' o' ko K ce' n0' t sc ce rho n0 lim o lo hi (P : list sv -> nat -> gx -> Prop),
+(* P := Jstd is itself stable in a context whose own range lies inside [lo, hi) and that keeps at least K0 *)
+Lemma Jstd_stable : forall sc' pc' st fk lo' hi' o' ko (K Kx : nat -> Prop) ce' n0' t sc ce rho n0 lim o lo hi (P : list sv -> nat -> gx -> Prop) (K0 : nat -> Prop),
   (forall (O : nat -> Prop) x y k h k' h', (forall i, O i -> lo <= i < hi \/ o <= i) -> P x k h -> chg O x y -> cle k h k' h' -> P y k' h') ->
-  (forall cx (o3 : nat) x y k h k' h', g_keep cx = K -> g_koff cx = ko -> o <= o3 -> P x k h -> keepK cx x y -> cle k h k' h' -> P y k' h') ->
-  (forall i, kept sc ce i -> K i) -> lo <= lo' -> hi' <= hi -> o <= o' -> lim <= lo -> lim <= o ->
-  stable (ctx_of sc' pc' st fk lo' hi' o' ko K ce' n0' t) (Jstd sc ce rho n0 lim o P).
+  (forall (Kx : nat -> Prop) x y k h k' h', (forall i, K0 i -> Kx i) -> P x k h -> keepX Kx x y -> cle k h k' h' -> P y k' h') ->
+  (forall i, kept sc ce i -> Kx i) -> (forall i, K0 i -> Kx i) -> lo <= lo' -> hi' <= hi -> o <= o' -> lim <= lo -> lim <= o ->
+  stable (ctx_of sc' pc' st fk lo' hi' o' ko K Kx ce' n0' t) (Jstd sc ce rho n0 lim o P).
 Proof.
-  intros sc' pc' st fk lo' hi' o' ko K ce' n0' t sc ce rho n0 lim o lo hi P S1' S2' HK2 H1 H2 H3 H4 H5. split.
+  intros sc' pc' st fk lo' hi' o' ko K Kx ce' n0' t sc ce rho n0 lim o lo hi P K0 S1' S2' HK3 HKx H1 H2 H3 H4 H5. split.
   - intros p q m g m' g' Hj C Hm.
     eapply (Jstd_chg' _ _ _ _ _ _ lo hi); [exact S1'| |exact Hj|exact C|exact Hm]. simpl; intros; lia.
   - intros p q m g m' g' Hj C Hm.
-    refine (Jstd_stable_cx _ _ _ _ _ _ _ _ _ _ _ K S1' S2' HK2 _ _ o _ _ _ _ _ _ _ Hj C Hm); [reflexivity|reflexivity|lia].
+    exact (Jstd_stable_cx _ _ _ _ _ _ _ _ _ _ _ S1' S2' HK3 HKx _ _ _ _ _ _ Hj C Hm).
 Qed.
 
 Lemma fork_transparent : forall sc pc t st o u fk x vs n g, at_ pc (Ifork t) ->
   steps (B (Some x) (F sc pc st o u :: fk) vs n g) (B (Some x) fk vs n g).
 Proof. intros. one st_popfork. one bt_fork_err. constructor. Qed.
+
+Lemma stable_P_sub : forall sc' pc' st fk lo' hi' o' ko (K Kx : nat -> Prop) ce' n0' t lo hi o (P : list sv -> nat -> gx -> Prop) (K0 : nat -> Prop),
+  (forall (O : nat -> Prop) x y k h k' h', (forall i, O i -> lo <= i < hi \/ o <= i) -> P x k h -> chg O x y -> cle k h k' h' -> P y k' h') ->
+  (forall (Kx : nat -> Prop) x y k h k' h', (forall i, K0 i -> Kx i) -> P x k h -> keepX Kx x y -> cle k h k' h' -> P y k' h') ->
+  (forall i, K0 i -> Kx i) -> lo <= lo' -> hi' <= hi -> o <= o' ->
+  stable (ctx_of sc' pc' st fk lo' hi' o' ko K Kx ce' n0' t) P.
+Proof.
+  intros sc' pc' st fk lo' hi' o' ko K Kx ce' n0' t lo hi o P K0 S1' S2' HKx H1 H2 H3. split.
+  - intros p q m x m' x' Hp C Hm. eapply (S1' _ p q m x m' x'); [|exact Hp|exact C|exact Hm]. simpl; intros; lia.
+  - intros p q m x m' x' Hp C Hm. exact (S2' Kx p q m x m' x' HKx Hp C Hm).
+Qed.
 
 Lemma impl_comma : forall a b, Impl a -> Impl b -> Impl (QComma a b).
 Proof.
@@ -352,20 +460,20 @@ Proof.
   inversion Hc; subst cq nv' sn'. clear Hc.
   uncons Hat A1. destruct (code_at_app _ _ _ _ Hat) as [Hata Hat2]. uncons Hat2 A2. rename Hat2 into Hatb.
   destruct (comp_mono _ _ _ _ _ _ _ _ _ Ec) as [M1 _]. destruct (comp_mono _ _ _ _ _ _ _ _ _ Ec0) as [M2 _].
-  std_facts. pose proof (conj S1 S2) as HS. destruct (stable_sub _ _ _ _ _ _ _ _ _ _ _ _ _ HS) as [S1' S2'].
+  std_facts. pose proof (conj S1 S2) as HS. destruct (stable_sub _ _ _ _ _ _ _ _ _ _ _ _ _ _ HS) as [S1' S2'].
   set (L := pc + 1 + length ca + 1) in *.
   replace (S (S pc + length ca)) with L in Hatb by (unfold L; lia).
   assert (Epc : pc + length (Ifork L :: ca ++ Ijump (L + length cb) :: cb) = L + length cb).
   { simpl. rewrite app_length. simpl. unfold L. lia. }
   subst c. rewrite Epc.
-  set (c := ctx_of sc (L + length cb) st fk (base + nv) (base + n2) o ko K ce n0 (ctr g)).
+  set (c := ctx_of sc (L + length cb) st fk (base + nv) (base + n2) o ko K K0 ce n0 (ctr g)).
   set (fx := F sc pc (SV v :: st) o (ctr g)).
   set (Pa := Jstd sc ce rho n0 (base + nv) o P).
-  (* a, with the fork of the comma below its forks *)
-  assert (HA : G (ctx_of sc (S pc + length ca) st (fx :: fk) (base + nv) (base + n1) o ko K ce n0 (ctr g)) (fst (den a rho v))
-                 (Tend (ctx_of sc (S pc + length ca) st (fx :: fk) (base + nv) (base + n1) o ko K ce n0 (ctr g)) (snd (den a rho v)) Pa)
+  (* a, with the fork of the comma below its forks: the continuation keeps K even after a forkless output *)
+  assert (HA : G (ctx_of sc (S pc + length ca) st (fx :: fk) (base + nv) (base + n1) o ko K K ce n0 (ctr g)) (fst (den a rho v))
+                 (Tend (ctx_of sc (S pc + length ca) st (fx :: fk) (base + nv) (base + n1) o ko K K ce n0 (ctr g)) (snd (den a rho v)) Pa)
                  (N sc (S pc) (SV v :: st) (fx :: fk) vs n o g)).
-  { apply (IHa sc cur base Hfr ce (S pc) nv sn ca n1 s1 Ec Hata rho v st (fx :: fk) vs n n0 o ko g K Pa); auto; try lia.
+  { apply (IHa sc cur base Hfr ce (S pc) nv sn ca n1 s1 Ec Hata rho v st (fx :: fk) vs n n0 o ko g K K Pa); auto; try lia.
     - intros; apply HK1; lia.
     - eapply Jstd_stable; eauto; lia.
     - split; auto. }
@@ -374,87 +482,84 @@ Proof.
   eapply G_pre; [one st_fork; constructor|apply chg_refl|cl|].
   set (ca' := {| g_sc := sc; g_pc := L + length cb; g_st := st; g_base := fx :: fk;
                  g_own := fun i => base + nv <= i < base + n1 \/ o <= i;
-                 g_keep := K; g_ce := ce; g_n0 := n0; g_off := o; g_koff := ko; g_ctr := ctr g |}) in HA.
+                 g_keep := K; g_keep0 := K; g_ce := ce; g_n0 := n0; g_off := o; g_koff := ko; g_ctr := ctr g |}) in HA.
   assert (Hfx : Forall (fun f => g_ctr c <= f_ctr f) [fx]) by (constructor; [simpl; lia|constructor]).
+  assert (Htr : forall x vs' n' g', (fun _ _ gg => ctr g <= ctr gg) vs' n' g' -> okerr (g_n0 c) x -> exists vs4 n4 g4,
+            steps (B (Some x) ([fx] ++ g_base c) vs' n' g') (B (Some x) (g_base c) vs4 n4 g4) /\ chg (g_own c) vs' vs4 /\ cle n' g' n4 g4).
+  { intros x vs' n' g' _ _. exists vs', n', g'. split; [eapply fork_transparent; eauto|]. split; [apply chg_refl|cl]. }
   cbn [Den.den]. destruct (den a rho v) as [wsa [xa|]] eqn:Ea; cbn [seq fst snd] in *.
   - (* a raised: the fork propagates the error *)
-    match type of HA with G _ ?w0 _ ?st0 => refine (G_ctx nt code ca' c [fx] (fun _ _ gg => ctr g <= ctr gg) _ _ eq_refl eq_refl eq_refl eq_refl _ _ _ (le_n _) (le_n _) (le_n _) Hfx _ _ _ _ w0 st0 (le_n _) HA) end; auto;
-      try (intros; unfold cle in *; simpl in *; lia).
-    + intros x vs' n' g' _ _. exists vs', n', g'. split; [eapply fork_transparent; eauto|]. split; [apply chg_refl|cl].
-    + intros z1 _ (e & vs4 & n4 & g4 & St4 & Ch4 & Le4 & HE4 & HP4).
+    assert (Hm : forall z1, ctr g <= ctr (gx_of z1) -> Tend ca' (Some xa) Pa z1 -> Tend c (Some xa) P z1).
+    { intros z1 _ (e & vs4 & n4 & g4 & St4 & Ch4 & Le4 & HE4 & HP4).
       destruct (encR_some _ _ _ _ _ HE4) as (y & ->). simpl in St4, Ch4.
       exists (Some y), vs4, n4, g4. split; [eapply steps_trans; [exact St4|eapply fork_transparent; eauto]|].
-      split; [eapply chg_mono; [|exact Ch4]; simpl; intros; lia|]. split; [auto|]. split; [exact HE4|apply HP4].
+      split; [eapply chg_mono; [|exact Ch4]; simpl; intros; lia|]. split; [auto|]. split; [exact HE4|apply HP4]. }
+    match type of HA with G2 _ ?w0 _ _ ?st0 => refine (G_ctx nt code ca' c [fx] (fun _ _ gg => ctr g <= ctr gg) _ _ _ _ eq_refl eq_refl eq_refl eq_refl _ _ _ (le_n _) (le_n _) (le_n _) Hfx _ _ Htr Hm Hm w0 st0 (le_n _) HA) end; auto;
+      try (intros; unfold cle in *; simpl in *; lia).
+    intros o0 p q Kp. exact (keepS_K _ _ _ _ Kp).
   - (* a ended: the fork resumes at b *)
     apply G_app.
-    match type of HA with G _ ?w0 _ ?st0 => refine (G_ctx nt code ca' c [fx] (fun _ _ gg => ctr g <= ctr gg) _ _ eq_refl eq_refl eq_refl eq_refl _ _ _ (le_n _) (le_n _) (le_n _) Hfx _ _ _ _ w0 st0 (le_n _) HA) end; auto;
-      try (intros; unfold cle in *; simpl in *; lia).
-    + intros x vs' n' g' _ _. exists vs', n', g'. split; [eapply fork_transparent; eauto|]. split; [apply chg_refl|cl].
-    + intros z1 HQz (e & vs4 & n4 & g4 & St4 & Ch4 & Le4 & HE4 & (E4 & Hn4 & Hl4 & HP4)). simpl in St4, Ch4, HE4. subst e.
+    assert (Hm : forall z1, ctr g <= ctr (gx_of z1) -> Tend ca' None Pa z1 ->
+                   G c (fst (den b rho v)) (Tend c (snd (den b rho v)) P) z1).
+    { intros z1 HQz (e & vs4 & n4 & g4 & St4 & Ch4 & Le4 & HE4 & (E4 & Hn4 & Hl4 & HP4)). simpl in St4, Ch4, HE4. subst e.
       eapply G_pre; [eapply steps_trans; [exact St4|one st_popfork; one bt_fork_none; constructor]
                     |eapply chg_mono; [|exact Ch4]; simpl; intros; lia|exact Le4|].
-      pose proof (IHb sc cur base Hfr ce L n1 s1 cb n2 s2 Ec0 Hatb rho v st fk vs4 n4 n0 o ko g4 K P) as HB. cbv zeta in HB.
-      refine (G_sub nt code (ctx_of sc (L + length cb) st fk (base + n1) (base + n2) o ko K ce n0 (ctr g4)) c _ _
-                eq_refl eq_refl eq_refl eq_refl _ _ _ (le_n _) (le_n _) _ _ _ _ (HB _ _ _ _ _ _ _ _ _)); auto; try lia.
+      pose proof (IHb sc cur base Hfr ce L n1 s1 cb n2 s2 Ec0 Hatb rho v st fk vs4 n4 n0 o ko g4 K K0 P) as HB. cbv zeta in HB.
+      refine (G_sub nt code (ctx_of sc (L + length cb) st fk (base + n1) (base + n2) o ko K K0 ce n0 (ctr g4)) c _ _
+                eq_refl eq_refl eq_refl eq_refl _ _ _ (le_n _) (le_n _) _ _ _ _ (HB _ _ _ _ _ _ _ _ _ _)); auto; try lia.
       * simpl; intros; lia.
       * simpl. destruct Le4 as [_ Le4]. lia.
       * intros s2'. apply Tend_sub; auto. simpl; intros; lia.
       * eapply envOK_lim; eauto. lia.
       * intros; apply HK1; lia.
-      * split; [intros p q m x m' x' Hp C Hm; eapply (S1' (fun i => base + n1 <= i < base + n2 \/ o <= i)); [simpl; intros; lia|exact Hp|exact C|exact Hm]
-               |intros p q m x m' x' Hp C Hm; refine (S2' _ o _ _ _ _ _ _ _ _ _ Hp C Hm); [reflexivity|reflexivity|lia]].
-Qed.
-
-Lemma stable_P_sub : forall sc' pc' st fk lo' hi' o' ko K ce' n0' t lo hi o (P : list sv -> nat -> gx -> Prop),
-  (forall (O : nat -> Prop) x y k h k' h', (forall i, O i -> lo <= i < hi \/ o <= i) -> P x k h -> chg O x y -> cle k h k' h' -> P y k' h') ->
-  (forall cx (o3 : nat) x y k h k' h', g_keep cx = K -> g_koff cx = ko -> o <= o3 -> P x k h -> keepK cx x y -> cle k h k' h' -> P y k' h') ->
-  lo <= lo' -> hi' <= hi -> o <= o' ->
-  stable (ctx_of sc' pc' st fk lo' hi' o' ko K ce' n0' t) P.
-Proof.
-  intros sc' pc' st fk lo' hi' o' ko K ce' n0' t lo hi o P S1' S2' H1 H2 H3. split.
-  - intros p q m x m' x' Hp C Hm. eapply (S1' _ p q m x m' x'); [|exact Hp|exact C|exact Hm]. simpl; intros; lia.
-  - intros p q m x m' x' Hp C Hm. refine (S2' _ o _ _ _ _ _ _ _ _ _ Hp C Hm); [reflexivity|reflexivity|lia].
+      * eapply stable_P_sub; [exact S1'|exact S2'|exact (fun i H => H)|lia|lia|lia]. }
+    match type of HA with G2 _ ?w0 _ _ ?st0 => refine (G_ctx nt code ca' c [fx] (fun _ _ gg => ctr g <= ctr gg) _ _ _ _ eq_refl eq_refl eq_refl eq_refl _ _ _ (le_n _) (le_n _) (le_n _) Hfx _ _ Htr Hm Hm w0 st0 (le_n _) HA) end; auto;
+      try (intros; unfold cle in *; simpl in *; lia).
+    intros o0 p q Kp. exact (keepS_K _ _ _ _ Kp).
 Qed.
 
 (* opiter enumerating the rest of a list *)
 Lemma G_iter_list : forall cx pcI o (P : list sv -> nat -> gx -> Prop), at_ pcI Iiter -> g_pc cx = S pcI -> g_off cx <= o ->
-  (forall a b m x m' x', P a m x -> keepK cx a b -> cle m x m' x' -> P b m' x') ->
+  (forall i, g_keep0 cx i -> g_keep cx i) ->
+  (forall a b m x m' x', P a m x -> keepK0 cx a b -> cle m x m' x' -> P b m' x') ->
   forall xs vs n g, P vs n g -> o <= length vs -> g_ctr cx <= ctr g ->
   G cx xs (Tend cx None P) (iter_state (g_sc cx) pcI xs (g_st cx) (g_base cx) vs n o g).
 Proof.
-  intros cx pcI o P Hat Hpc Hoff HP. induction xs as [|x r IH]; intros vs n g Hp Hl Hc.
+  intros cx pcI o P Hat Hpc Hoff HK0 HP. induction xs as [|x r IH]; intros vs n g Hp Hl Hc.
   - simpl. eapply G_end; [apply steps_refl|apply chg_refl|cl|reflexivity|auto].
   - destruct r as [|y r].
     + simpl. eapply G_single; [rewrite Hpc; apply steps_refl|apply chg_refl|cl|simpl; lia|].
       intros; eapply HP; eauto.
     + change (G cx (x :: y :: r) (Tend cx None P)
                 (N (g_sc cx) (S pcI) (SV x :: g_st cx) (F (g_sc cx) pcI (SIt (y :: r) :: g_st cx) o (ctr g) :: g_base cx) vs n o g)).
-      eapply (G_cons nt code cx x (y :: r) _ _ [F (g_sc cx) pcI (SIt (y :: r) :: g_st cx) o (ctr g)] vs n o g);
+      eapply (G_cons nt code cx x (y :: r) _ _ _ (F (g_sc cx) pcI (SIt (y :: r) :: g_st cx) o (ctr g)) [] vs n o g);
         [rewrite Hpc; apply steps_refl|apply chg_refl|cl|simpl; lia|constructor; [simpl; lia|constructor]|].
       intros vs2 n2 g2 Kp L2. split.
       * simpl app. eapply G_pre; [one st_popfork; one bt_iter_none; apply steps_refl|rewrite iter_state_vars; apply chg_refl
                                  |rewrite iter_state_lbl, iter_state_gx; cl|].
-        apply IH; [eapply HP; [eauto|exact (keepS_K _ _ _ _ Kp)|eauto]|destruct Kp; lia|destruct L2; lia].
+        apply IH; [eapply HP; [eauto|exact (keepX_mono _ _ _ _ HK0 (keepS_K _ _ _ _ Kp))|eauto]|destruct Kp; lia|destruct L2; lia].
       * intros e _. exists vs2, n2, g2. simpl app. split; [one st_popfork; one bt_iter_err; apply steps_refl|].
         split; [apply chg_refl|cl].
 Qed.
 
 Lemma G_iter : forall cx pcI o (P : list sv -> nat -> gx -> Prop) w vs n g, at_ pcI Iiter -> g_pc cx = S pcI -> g_off cx <= o ->
-  (forall a b m x m' x', P a m x -> keepK cx a b -> cle m x m' x' -> P b m' x') -> P vs n g -> o <= length vs -> g_ctr cx <= ctr g ->
+  (forall i, g_keep0 cx i -> g_keep cx i) ->
+  (forall a b m x m' x', P a m x -> keepK0 cx a b -> cle m x m' x' -> P b m' x') -> P vs n g -> o <= length vs -> g_ctr cx <= ctr g ->
   G cx (fst (iter_res nt w)) (Tend cx (snd (iter_res nt w)) P) (N (g_sc cx) pcI (SV w :: g_st cx) (g_base cx) vs n o g).
 Proof.
-  intros cx pcI o P w vs n g Hat Hpc Hoff HP Hp Hl Hc. unfold iter_res. destruct (n_iter nt w) as [xs|e] eqn:E; cbn [fst snd].
+  intros cx pcI o P w vs n g Hat Hpc Hoff HK0 HP Hp Hl Hc. unfold iter_res. destruct (n_iter nt w) as [xs|e] eqn:E; cbn [fst snd].
   - eapply G_pre; [one st_iter_ok; apply steps_refl|rewrite iter_state_vars; apply chg_refl
                   |rewrite iter_state_lbl, iter_state_gx; cl|eapply G_iter_list; eauto].
   - eapply G_end; [one st_iter_err; apply steps_refl|apply chg_refl|cl|reflexivity|auto].
 Qed.
 
 Lemma G_index : forall cx pcI k o (P : list sv -> nat -> gx -> Prop) w vs n g, at_ pcI (Iindex k) -> g_pc cx = S pcI -> g_off cx <= o ->
-  (forall a b m x m' x', P a m x -> keepK cx a b -> cle m x m' x' -> P b m' x') -> P vs n g -> o <= length vs -> g_ctr cx <= ctr g ->
+  (forall i, g_keep0 cx i -> g_keep cx i) ->
+  (forall a b m x m' x', P a m x -> keepK0 cx a b -> cle m x m' x' -> P b m' x') -> P vs n g -> o <= length vs -> g_ctr cx <= ctr g ->
   G cx (fst (of_sum (n_index nt w k))) (Tend cx (snd (of_sum (n_index nt w k))) P)
     (N (g_sc cx) pcI (SV w :: g_st cx) (g_base cx) vs n o g).
 Proof.
-  intros cx pcI k o P w vs n g Hat Hpc Hoff HP Hp Hl Hc. destruct (n_index nt w k) as [r|e] eqn:E; cbn [of_sum fst snd].
+  intros cx pcI k o P w vs n g Hat Hpc Hoff HK0 HP Hp Hl Hc. destruct (n_index nt w k) as [r|e] eqn:E; cbn [of_sum fst snd].
   - eapply G_single; [rewrite Hpc; one st_index_ok; apply steps_refl|apply chg_refl|cl|simpl; lia|].
     intros; eapply HP; eauto.
   - eapply G_end; [one st_index_err; apply steps_refl|apply chg_refl|cl|reflexivity|auto].
@@ -463,36 +568,36 @@ Qed.
 (* t followed by one instruction that is a generator on the top of the stack *)
 Lemma postfix_std : forall t (f : jv -> result) (i : instr), Impl t ->
   (forall cx pcI o (P : list sv -> nat -> gx -> Prop) w vs n g, at_ pcI i -> g_pc cx = S pcI -> g_off cx <= o ->
-     (forall a b m x m' x', P a m x -> keepK cx a b -> cle m x m' x' -> P b m' x') -> P vs n g -> o <= length vs -> g_ctr cx <= ctr g ->
+     (forall i, g_keep0 cx i -> g_keep cx i) ->
+     (forall a b m x m' x', P a m x -> keepK0 cx a b -> cle m x m' x' -> P b m' x') -> P vs n g -> o <= length vs -> g_ctr cx <= ctr g ->
      G cx (fst (f w)) (Tend cx (snd (f w)) P) (N (g_sc cx) pcI (SV w :: g_st cx) (g_base cx) vs n o g)) ->
   forall sc cur base, frameOK sc cur base ->
   forall ce pc nv sn ct nv' sn', comp t ce cur pc nv sn = Some (ct, nv', sn') -> code_at pc (ct ++ [i]) ->
-  forall rho v st fk vs n n0 o ko g (K : nat -> Prop) (P : list sv -> nat -> gx -> Prop),
+  forall rho v st fk vs n n0 o ko g (K K0 : nat -> Prop) (P : list sv -> nat -> gx -> Prop),
     envOK sc ce rho vs n0 (base + nv) -> n0 <= n -> base + nv' <= ko -> ko <= o -> o <= length vs ->
-    (forall i, base + nv <= i < base + nv' -> K i) -> (forall i, kept sc ce i -> K i) ->
-    let c := ctx_of sc (pc + length (ct ++ [i])) st fk (base + nv) (base + nv') o ko K ce n0 (ctr g) in
+    (forall i, base + nv <= i < base + nv' -> K i) -> (forall i, kept sc ce i -> K i) -> (forall i, K0 i -> K i) ->
+    let c := ctx_of sc (pc + length (ct ++ [i])) st fk (base + nv) (base + nv') o ko K K0 ce n0 (ctr g) in
     stable c P -> P vs n g ->
     G c (fst (bind (den t rho v) f)) (Tend c (snd (bind (den t rho v) f)) P) (N sc pc (SV v :: st) fk vs n o g).
 Proof.
-  intros t f i IHt Hbody sc cur base Hfr ce pc nv sn ct nv' sn' Ec Hat rho v st fk vs n n0 o ko g K P HE Hn Hko Hoo Hlen HK1 HK2 c HS HP. pose proof (proj1 Hfr) as Hcur.
+  intros t f i IHt Hbody sc cur base Hfr ce pc nv sn ct nv' sn' Ec Hat rho v st fk vs n n0 o ko g K K0 P HE Hn Hko Hoo Hlen HK1 HK2 HK0 c HS HP. pose proof (proj1 Hfr) as Hcur.
   destruct (code_at_app _ _ _ _ Hat) as [Hatt Hati]. uncons Hati Ai.
   destruct (comp_mono _ _ _ _ _ _ _ _ _ Ec) as [M1 _].
-  std_facts. destruct (stable_sub _ _ _ _ _ _ _ _ _ _ _ _ _ HS) as [S1' S2'].
+  std_facts. destruct (stable_sub _ _ _ _ _ _ _ _ _ _ _ _ _ _ HS) as [S1' S2'].
   pose proof (impl_inner t IHt sc cur base Hfr ce pc nv sn ct nv' sn' Ec Hatt rho v st fk vs n n0 o g HE Hn ltac:(lia) Hlen) as HA.
   cbv zeta in HA.
   assert (Epc : pc + length (ct ++ [i]) = S (pc + length ct)) by (rewrite app_length; simpl; lia).
   subst c. rewrite Epc in *.
-  eapply G_impl; [|refine (bind_std f (fun _ => True) sc (pc + length ct) st (base + nv) (base + nv') (S (pc + length ct)) st fk
-            (base + nv) (base + nv') o ko K ce n0 (ctr g) rho (base + nv) P (fun _ => False) ce
-            HS (le_n _) (le_n _) Hko Hoo (le_n _) ltac:(lia) Hkl HK1 HK2 _ eq_refl _ _ (den t rho v) _ HA _ (le_n _))].
-  - intros s0. apply Tend_weaken. intros p m x [Hp _]. exact Hp.
+  refine (bind_std f (fun _ => True) sc (pc + length ct) st (base + nv) (base + nv') (S (pc + length ct)) st fk
+            (base + nv) (base + nv') o ko K K0 ce n0 (ctr g) rho (base + nv) P (fun _ => False) ce
+            HS (le_n _) (le_n _) Hko Hoo (le_n _) ltac:(lia) Hkl HK1 HK2 HK0 _ eq_refl _ _ _ (den t rho v) _ HA _ (le_n _)).
   - intros j [].
   - auto.
-  - intros w fk' vs' n' o' x Hj Ho' Ht' Hfk.
-    apply (Hbody (cbody (ctx_of sc (S (pc + length ct)) st fk (base + nv) (base + nv') o ko K ce n0 (ctr g)) (fun _ => False) ce fk' o' (ctr x))
+  - auto.
+  - intros w fk' vs' n' o' x Hj Ho' Ht' Hfk Hwk Hin.
+    apply (Hbody (cbody (ctx_of sc (S (pc + length ct)) st fk (base + nv) (base + nv') o ko K K0 ce n0 (ctr g)) (fun _ => False) ce fk' o' (ctr x))
                  (pc + length ct) o'); simpl; auto; try lia.
-    intros a b m y m' y' [Hja _] Kp Hm. split; auto.
-    refine (Jstd_stable_cx _ _ _ _ _ _ _ _ _ _ _ K S1' S2' HK2 _ _ o' _ _ _ _ _ _ _ Hja Kp Hm); [reflexivity|reflexivity|lia].
+    intros j Hj'. exact (wk_K _ _ _ _ HK0 Hj').
   - split; [|auto]. split; auto.
 Qed.
 
@@ -511,38 +616,6 @@ Proof.
   intros; apply G_index; auto. split; auto.
 Qed.
 
-(* an Impl run as a body of a composition, with the standard invariant Jstd /\ Jg *)
-Lemma std_body : forall q, Impl q -> forall sc cur base, frameOK sc cur base ->
-  forall ceq pcq nvq sn cq nvq' sn', comp q ceq cur pcq nvq sn = Some (cq, nvq', sn') -> code_at pcq cq ->
-  forall pc' st fk lo hi o ko K ce n0 t (ownb0 : nat -> Prop) ceb fk' o' x rhoq rho lim
-         (P : list sv -> nat -> gx -> Prop) (Jg : list sv -> Prop) v' vs' n',
-    pc' = pcq + length cq -> ce_lbls ceb = ce_lbls ceq ->
-    (forall i, base + nvq <= i < base + nvq' -> ownb0 i /\ K i) -> (forall i, kept sc ceq i -> K i) -> (forall i, kept sc ce i -> K i) ->
-    envOK sc ceq rhoq vs' n0 (base + nvq) -> base + nvq' <= ko -> ko <= o -> lo <= base + nvq -> base + nvq' <= hi ->
-    lim <= base + nvq -> lim <= o ->
-    (forall (O : nat -> Prop) x y k h k' h', (forall i, O i -> lo <= i < hi \/ o <= i) -> P x k h -> chg O x y -> cle k h k' h' -> P y k' h') ->
-    (forall cx (o3 : nat) x y k h k' h', g_keep cx = K -> g_koff cx = ko -> o <= o3 -> P x k h -> keepK cx x y -> cle k h k' h' -> P y k' h') ->
-    (forall a b, Jg a -> chg (fun i => base + nvq <= i < base + nvq' \/ o' <= i) a b -> Jg b) ->
-    (forall cx (o3 : nat) a b, g_keep cx = K -> g_koff cx = ko -> Jg a -> keepK cx a b -> Jg b) ->
-    Jstd sc ce rho n0 lim o P vs' n' x -> Jg vs' -> o <= o' <= length vs' -> t <= ctr x ->
-    let cb := cbody (ctx_of sc pc' st fk lo hi o ko K ce n0 t) ownb0 ceb fk' o' (ctr x) in
-    G cb (fst (den q rhoq v')) (Tend cb (snd (den q rhoq v')) (fun a m y => Jstd sc ce rho n0 lim o P a m y /\ Jg a))
-      (N sc pcq (SV v' :: st) (fk' ++ fk) vs' n' o' x).
-Proof.
-  intros q IH sc cur base Hfr ceq pcq nvq sn cq nvq' sn' Ec Hat pc' st fk lo hi o ko K ce n0 t ownb0 ceb fk' o' x rhoq rho lim P Jg v' vs' n'
-         Hpc Hlb Hown HKq HK2 HEq Hko Hoo Hlo Hhi Hlim Hlimo S1' S2' Jg1 Jg2 Hj Hg Ho' Ht cb. pose proof (proj1 Hfr) as Hcur.
-  pose proof Hj as (E' & Hn' & Hl' & Hp').
-  apply (impl_body q IH sc cur base Hfr ceq pcq nvq sn cq nvq' sn' Ec Hat cb rhoq v' vs' n' o' x
-           (fun a m y => Jstd sc ce rho n0 lim o P a m y /\ Jg a)); subst cb; simpl; auto; try lia.
-  - intros i [Hi|Hi]; [left; apply Hown; auto|right; auto].
-  - intros i Hi. apply Hown; auto.
-  - intros a b m y m' y' [Hja Hga] C Hm. split; [|eapply Jg1; eauto].
-    eapply (Jstd_chg' _ _ _ _ _ _ lo hi); [exact S1'| |exact Hja|exact C|exact Hm]. simpl; intros; lia.
-  - intros o3 a b m y m' y' Ho3 [Hja Hga] C Hm. split.
-    + refine (Jstd_stable_cx _ _ _ _ _ _ _ _ _ _ _ K S1' S2' HK2 _ _ o3 _ _ _ _ _ _ _ Hja C Hm); [reflexivity|reflexivity|lia].
-    + refine (Jg2 _ o3 a b _ _ Hga C); reflexivity.
-Qed.
-
 Lemma is_const1_some : forall l x, is_const1 l = Some x -> l = [Iconst x].
 Proof. intros l y H. destruct l as [|[] [|]]; simpl in H; try discriminate. inversion H; auto. Qed.
 
@@ -556,7 +629,7 @@ Lemma if_cond : forall c, Impl c -> forall sc cur base, frameOK sc cur base ->
   forall rho v st0 st1 fk vs n n0 o g,
   (forall f vs n o g, step nt code (N sc pc (SV v :: st0) f vs n o g) = Next (N sc (S pc) (SV v :: st1) f vs n o g)) ->
   envOK sc ce rho vs n0 (base + nv) -> n0 <= n -> base + n1 <= o -> o <= length vs ->
-  let c1 := ctx_of sc (pc + length (if_pre cc)) st1 fk (base + nv) (base + n1) o o (fun i => base + nv <= i < base + n1 \/ kept sc ce i) ce n0 (ctr g) in
+  let c1 := ctx_of sc (pc + length (if_pre cc)) st1 fk (base + nv) (base + n1) o o (fun i => base + nv <= i < base + n1 \/ kept sc ce i) (fun _ => False) ce n0 (ctr g) in
   G c1 (fst (den c rho v)) (Tend c1 (snd (den c rho v)) (fun _ _ _ => True)) (N sc pc (SV v :: st0) fk vs n o g).
 Proof.
   intros c IHc sc cur base Hfr ce pc nv sn cc n1 s1 Ec i0 Hat rho v st0 st1 fk vs n n0 o g Hstep HE Hn Ho Hl c1. pose proof (proj1 Hfr) as Hcur.
@@ -608,7 +681,7 @@ Proof.
   set (pcc := pc + length (if_pre cc)) in *. set (e := pcc + 1 + length ca + 1) in *.
   destruct (comp_mono _ _ _ _ _ _ _ _ _ Ec) as [M1 _]. destruct (comp_mono _ _ _ _ _ _ _ _ _ Ea) as [M2 _].
   destruct (comp_mono _ _ _ _ _ _ _ _ _ Eb) as [M3 _].
-  std_facts. pose proof (conj S1 S2) as HS. destruct (stable_sub _ _ _ _ _ _ _ _ _ _ _ _ _ HS) as [S1' S2'].
+  std_facts. pose proof (conj S1 S2) as HS. destruct (stable_sub _ _ _ _ _ _ _ _ _ _ _ _ _ _ HS) as [S1' S2'].
   assert (HJ0 : Jstd sc ce rho n0 (base + nv) o P vs n g) by (split; auto).
   cbn [Den.den].
   destruct Hcq as [(x & y & -> & -> & ->)| ->].
@@ -627,18 +700,18 @@ Proof.
     assert (A0 : at_ pc Inop) by (destruct (code_at_cons _ _ _ _ Hpre); auto).
     specialize (HA (fun f vs n o g => st_nop nt code sc pc _ f vs n o g A0) HE Hn ltac:(lia) Hlen). fold pcc in HA.
     rewrite (comp_const1 nt _ _ _ _ _ _ _ _ _ Ea), (comp_const1 nt _ _ _ _ _ _ _ _ _ Eb).
-    eapply G_impl; [|refine (bind_std (fun w => if truthy w then ([x], None) else ([y], None)) (fun _ => True)
-              sc pcc st (base + nv) (base + n1) (e + 1) st fk (base + nv) (base + nv') o ko K ce n0 (ctr g) rho (base + nv) P
-              (fun _ => False) ce HS (le_n _) ltac:(lia) Hko Hoo (le_n _) ltac:(lia) Hkl HK1 HK2 _ eq_refl _ _ _ _ HA _ (le_n _))].
-    + intros s0. apply Tend_weaken. intros p m z [Hp _]. exact Hp.
+    refine (bind_std (fun w => if truthy w then ([x], None) else ([y], None)) (fun _ => True)
+              sc pcc st (base + nv) (base + n1) (e + 1) st fk (base + nv) (base + nv') o ko K K0 ce n0 (ctr g) rho (base + nv) P
+              (fun _ => False) ce HS (le_n _) ltac:(lia) Hko Hoo (le_n _) ltac:(lia) Hkl HK1 HK2 HK0 _ eq_refl _ _ _ _ _ HA _ (le_n _)).
     + intros i [].
     + auto.
-    + intros w fk' vs' n' o' z Hj Ho' Ht' Hfk.
+    + auto.
+    + intros w fk' vs' n' o' z Hj Ho' Ht' Hfk Hwk Hin.
       eapply G_pre; [one st_jumpifnot; apply steps_refl|apply chg_refl|cl|].
-      assert (HK : forall vs2 n2' g2, keepK (cbody (ctx_of sc (e + 1) st fk (base + nv) (base + nv') o ko K ce n0 (ctr g)) (fun _ => False) ce fk' o' (ctr z)) vs' vs2 ->
-                    cle n' z n2' g2 -> Jstd sc ce rho n0 (base + nv) o P vs2 n2' g2 /\ True).
-      { intros vs2 n2' g2 Kp L2. destruct Hj as [Hj _]. split; auto.
-        refine (Jstd_stable_cx _ _ _ _ _ _ _ _ _ _ _ K S1' S2' HK2 _ _ o' _ _ _ _ _ _ _ Hj Kp L2); [reflexivity|reflexivity|lia]. }
+      assert (HK : forall vs2 n2' g2, keepK0 (cbody (ctx_of sc (e + 1) st fk (base + nv) (base + nv') o ko K K0 ce n0 (ctr g)) (fun _ => False) ce fk' o' (ctr z)) vs' vs2 ->
+                    cle n' z n2' g2 ->
+                    wk fk' (fun a m x0 => Jstd sc ce rho n0 (base + nv) o P a m x0 /\ True) (fun a m x0 => P a m x0 /\ True) vs2 n2' g2).
+      { intros vs2 n2' g2 Kp L2. eapply Hwk; [apply Hin; exact Hj|exact Kp|exact L2]. }
       destruct (truthy w); cbn [fst snd].
       * eapply G_single; [simpl g_pc; simpl g_st; simpl g_base; simpl g_sc; one st_push; one st_jump; apply steps_refl
                          |apply chg_refl|cl|simpl; lia|exact HK].
@@ -657,27 +730,27 @@ Proof.
     pose proof (if_cond qc IHc sc cur base Hfr ce pc nv sn cc n1 s1 Ec Idup Hpre rho v st (SV v :: st) fk vs n n0 o g) as HA. cbv zeta in HA.
     assert (A0 : at_ pc Idup) by (destruct (code_at_cons _ _ _ _ Hpre); auto).
     specialize (HA (fun f vs n o g => st_dup nt code sc pc _ _ f vs n o g A0) HE Hn ltac:(lia) Hlen). fold pcc in HA.
-    eapply G_impl; [|refine (bind_std (fun w => if truthy w then den qa rho v else den qb rho v) (fun _ => True)
-              sc pcc (SV v :: st) (base + nv) (base + n1) (e + length cb) st fk (base + nv) (base + nv') o ko K ce n0 (ctr g) rho (base + nv) P
+    refine (bind_std (fun w => if truthy w then den qa rho v else den qb rho v) (fun _ => True)
+              sc pcc (SV v :: st) (base + nv) (base + n1) (e + length cb) st fk (base + nv) (base + nv') o ko K K0 ce n0 (ctr g) rho (base + nv) P
               (fun i => base + n1 <= i < base + nv') ce
-              HS (le_n _) ltac:(lia) Hko Hoo (le_n _) ltac:(lia) Hkl HK1 HK2 _ eq_refl _ _ _ _ HA _ (le_n _))].
-    + intros s0. apply Tend_weaken. intros p m z [Hp _]. exact Hp.
+              HS (le_n _) ltac:(lia) Hko Hoo (le_n _) ltac:(lia) Hkl HK1 HK2 HK0 _ eq_refl _ _ _ _ _ HA _ (le_n _)).
     + intros i Hi. lia.
     + auto.
-    + intros w fk' vs' n' o' z [Hj _] Ho' Ht' Hfk. pose proof Hj as (E' & Hn' & Hl' & Hp').
+    + auto.
+    + intros w fk' vs' n' o' z [Hj _] Ho' Ht' Hfk _ _. pose proof Hj as (E' & Hn' & Hl' & Hp').
       eapply G_pre; [one st_jumpifnot; apply steps_refl|apply chg_refl|cl|].
       destruct (truthy w).
       * (* then-branch, followed by the jump over the else-branch *)
-        pose proof (std_body qa IHa sc cur base Hfr ce (S pcc) n1 s1 ca n2 s2 Ea Hata (S pcc + length ca) st fk (base + nv) (base + nv') o ko K ce n0 (ctr g)
-                      (fun i => base + n1 <= i < base + nv') ce fk' o' z rho rho (base + nv) P (fun _ => True) v vs' n' eq_refl eq_refl) as HB.
+        pose proof (std_body qa IHa sc cur base Hfr ce (S pcc) n1 s1 ca n2 s2 Ea Hata (S pcc + length ca) st fk (base + nv) (base + nv') o ko K K0 ce n0 (ctr g)
+                      (fun i => base + n1 <= i < base + nv') ce fk' o' z rho rho (base + nv) P (fun _ => True) (fun _ => True) v vs' n' eq_refl eq_refl) as HB.
         cbv zeta in HB.
         eapply G_impl; [|eapply (G_exit nt code sc (S pcc + length ca) (e + length cb)); [|apply HB; auto; try lia]].
         -- intros s0. apply Tend_sub; auto.
         -- intros w' f vs2 n2' o2 g2. one st_jump. apply steps_refl.
         -- intros i Hi. split; [lia|apply HK1; lia].
         -- eapply envOK_lim; eauto. lia.
-      * pose proof (std_body qb IHb sc cur base Hfr ce e n2 s2 cb nv' sn' Eb Hatb (e + length cb) st fk (base + nv) (base + nv') o ko K ce n0 (ctr g)
-                      (fun i => base + n1 <= i < base + nv') ce fk' o' z rho rho (base + nv) P (fun _ => True) v vs' n' eq_refl eq_refl) as HB.
+      * pose proof (std_body qb IHb sc cur base Hfr ce e n2 s2 cb nv' sn' Eb Hatb (e + length cb) st fk (base + nv) (base + nv') o ko K K0 ce n0 (ctr g)
+                      (fun i => base + n1 <= i < base + nv') ce fk' o' z rho rho (base + nv) P (fun _ => True) (fun _ => True) v vs' n' eq_refl eq_refl) as HB.
         cbv zeta in HB. apply HB; auto; try lia.
         -- intros i Hi. split; [lia|apply HK1; lia].
         -- eapply envOK_lim; eauto. lia.
@@ -715,24 +788,25 @@ Qed.
 (* the body of a binding construct: the value w was stored in the fresh slot k of the current frame *)
 Lemma bound_body : forall q, Impl q -> forall sc cur base, frameOK sc cur base ->
   forall ce x k pcq sn cq nvq' sn', comp q (add_var ce x (cur, k)) cur pcq (S k) sn = Some (cq, nvq', sn') -> code_at pcq cq ->
-  forall pc' st fk lo hi o ko K n0 t (ownb0 : nat -> Prop) fk' o' z rho lim
+  forall pc' st fk lo hi o ko (K K0 : nat -> Prop) n0 t (ownb0 : nat -> Prop) fk' o' z rho lim
          (P : list sv -> nat -> gx -> Prop) w u vs' n',
     pc' = pcq + length cq ->
-    (forall i, base + k <= i < base + nvq' -> ownb0 i /\ K i) -> (forall i, kept sc ce i -> K i) ->
+    (forall i, base + k <= i < base + nvq' -> ownb0 i /\ K i) -> (forall i, kept sc ce i -> K i) -> (forall i, K0 i -> K i) ->
     base + nvq' <= ko -> ko <= o -> lo <= base + k -> base + nvq' <= hi -> lim <= base + k -> lim <= o ->
     (forall (O : nat -> Prop) x y k h k' h', (forall i, O i -> lo <= i < hi \/ o <= i) -> P x k h -> chg O x y -> cle k h k' h' -> P y k' h') ->
-    (forall cx (o3 : nat) x y k h k' h', g_keep cx = K -> g_koff cx = ko -> o <= o3 -> P x k h -> keepK cx x y -> cle k h k' h' -> P y k' h') ->
+    (forall (Kx : nat -> Prop) x y k h k' h', (forall i, K0 i -> Kx i) -> P x k h -> keepX Kx x y -> cle k h k' h' -> P y k' h') ->
     Jstd sc ce rho n0 lim o P vs' n' z -> nth_error vs' (base + k) = Some (SV w) -> o <= o' <= length vs' -> t <= ctr z ->
-    let cb := cbody (ctx_of sc pc' st fk lo hi o ko K ce n0 t) ownb0 ce fk' o' (ctr z) in
-    G cb (fst (den q ((x, w) :: rho) u)) (Tend cb (snd (den q ((x, w) :: rho) u)) (fun a m y => Jstd sc ce rho n0 lim o P a m y /\ True))
+    let cb := cbody (ctx_of sc pc' st fk lo hi o ko K K0 ce n0 t) ownb0 ce fk' o' (ctr z) in
+    G cb (fst (den q ((x, w) :: rho) u)) (Tend cb (snd (den q ((x, w) :: rho) u))
+           (wk fk' (fun a m y => Jstd sc ce rho n0 lim o P a m y /\ True) (fun a m y => P a m y /\ True)))
       (N sc pcq (SV u :: st) (fk' ++ fk) vs' n' o' z).
 Proof.
-  intros q IH sc cur base Hfr ce x k pcq sn cq nvq' sn' Ec Hat pc' st fk lo hi o ko K n0 t ownb0 fk' o' z rho lim P w u vs' n'
-         Hpc Hown HK2 Hko Hoo Hlo Hhi Hlim Hlimo S1' S2' Hj Hnth Ho' Ht cb. pose proof (proj1 Hfr) as Hcur.
+  intros q IH sc cur base Hfr ce x k pcq sn cq nvq' sn' Ec Hat pc' st fk lo hi o ko K K0 n0 t ownb0 fk' o' z rho lim P w u vs' n'
+         Hpc Hown HK2 HK0 Hko Hoo Hlo Hhi Hlim Hlimo S1' S2' Hj Hnth Ho' Ht cb. pose proof (proj1 Hfr) as Hcur.
   destruct (comp_mono _ _ _ _ _ _ _ _ _ Ec) as [M _]. pose proof Hj as (E & Hn & Hl & Hp).
   subst cb.
-  apply (std_body q IH sc cur base Hfr (add_var ce x (cur, k)) pcq (S k) sn cq nvq' sn' Ec Hat pc' st fk lo hi o ko K ce n0 t ownb0 ce fk' o' z
-           ((x, w) :: rho) rho lim P (fun _ => True) u vs' n' Hpc eq_refl); auto; try lia.
+  apply (std_body q IH sc cur base Hfr (add_var ce x (cur, k)) pcq (S k) sn cq nvq' sn' Ec Hat pc' st fk lo hi o ko K K0 ce n0 t ownb0 ce fk' o' z
+           ((x, w) :: rho) rho lim P (fun _ => True) (fun _ => True) u vs' n' Hpc eq_refl); auto; try lia.
   - intros i Hi. apply Hown. lia.
   - intros i Hi. destruct (kept_add_var _ _ _ _ _ _ (Hcur k) Hi) as [->|Hi']; [apply Hown; lia|auto].
   - eapply envOK_add_var; [eapply envOK_lim; [exact E|lia]|apply Hcur|lia|exact Hnth].
@@ -743,7 +817,7 @@ Proof.
   intros qs x qb IHs IHb. impl_intro.
   destruct (comp_bind_inv _ _ _ _ _ _ _ _ _ _ _ Hc) as (cs & n1 & s1 & cb & Es & Eb & ->). clear Hc.
   destruct (comp_mono _ _ _ _ _ _ _ _ _ Es) as [M1 _]. destruct (comp_mono _ _ _ _ _ _ _ _ _ Eb) as [M2 _].
-  std_facts. pose proof (conj S1 S2) as HS. destruct (stable_sub _ _ _ _ _ _ _ _ _ _ _ _ _ HS) as [S1' S2'].
+  std_facts. pose proof (conj S1 S2) as HS. destruct (stable_sub _ _ _ _ _ _ _ _ _ _ _ _ _ _ HS) as [S1' S2'].
   assert (HJ0 : Jstd sc ce rho n0 (base + nv) o P vs n g) by (split; auto).
   cbn [Den.den].
   destruct (code_at_app _ _ _ _ Hat) as [Hpre Hatb].
@@ -754,19 +828,19 @@ Proof.
     destruct (comp_nil _ _ _ _ _ _ _ _ Es) as (E1 & -> & ->). unfold bind_pre in Hpre. simpl in pcb.
     uncons Hpre A0. uncons Hpre A1. uncons Hpre A2.
     rewrite (emptycode_den nt _ E1).
-    eapply G_impl; [|refine (bind_std (fun w => den qb ((x, w) :: rho) v) (fun _ => True) sc (S (S pc)) (SV v :: st) (base + nv) (base + nv)
-              (pcb + length cb) st fk (base + nv) (base + nv') o ko K ce n0 (ctr g) rho (base + nv) P
-              (fun i => base + nv <= i < base + nv') ce HS (le_n _) ltac:(lia) Hko Hoo (le_n _) ltac:(lia) Hkl HK1 HK2 _ eq_refl _ _ ([v], None)
-              (N sc pc (SV v :: st) fk vs n o g) _ _ (le_n _))].
-    + intros s0. apply Tend_weaken. intros p m z [Hp _]. exact Hp.
+    refine (bind_std (fun w => den qb ((x, w) :: rho) v) (fun _ => True) sc (S (S pc)) (SV v :: st) (base + nv) (base + nv)
+              (pcb + length cb) st fk (base + nv) (base + nv') o ko K K0 ce n0 (ctr g) rho (base + nv) P
+              (fun i => base + nv <= i < base + nv') ce HS (le_n _) ltac:(lia) Hko Hoo (le_n _) ltac:(lia) Hkl HK1 HK2 HK0 _ eq_refl _ _ _ ([v], None)
+              (N sc pc (SV v :: st) fk vs n o g) _ _ (le_n _)).
     + intros i Hi. lia.
     + auto.
-    + intros w fk' vs' n' o' z [Hj _] Ho' Ht' Hfk. pose proof Hj as (E' & Hn' & Hl' & Hp').
+    + auto.
+    + intros w fk' vs' n' o' z [Hj _] Ho' Ht' Hfk _ _. pose proof Hj as (E' & Hn' & Hl' & Hp').
       destruct (update_some vs' (base + nv) (SV w)) as [vs'' U]; [lia|].
       destruct (update_spec _ _ _ _ U) as (UL & UN & UO).
       eapply G_pre; [one st_store; apply steps_refl|eapply chg_update; [exact U|simpl; lia]|cl|].
       replace (S (S (S pc))) with pcb by (unfold pcb; lia).
-      apply (bound_body qb IHb sc cur base Hfr ce x nv pcb sn cb nv' sn' Eb Hatb (pcb + length cb) st fk (base + nv) (base + nv') o ko K n0 (ctr g)
+      apply (bound_body qb IHb sc cur base Hfr ce x nv pcb sn cb nv' sn' Eb Hatb (pcb + length cb) st fk (base + nv) (base + nv') o ko K K0 n0 (ctr g)
                (fun i => base + nv <= i < base + nv') fk' o' z rho (base + nv) P w v vs'' n'); auto; try lia.
       all: try (intros i Hi; split; [lia|apply HK1; lia]).
       all: try (eapply Jstd_update; eauto; lia).
@@ -782,19 +856,19 @@ Proof.
     { unfold pcb. rewrite Epre. simpl. rewrite app_length. simpl. lia. }
     pose proof (impl_inner qs IHs sc cur base Hfr ce (pc + 2) nv sn cs n1 s1 Es Hats rho v (SV v :: st) fk vs n n0 o g HE Hn ltac:(lia) Hlen) as HA.
     cbv zeta in HA.
-    eapply G_impl; [|refine (bind_std (fun w => den qb ((x, w) :: rho) v) (fun _ => True) sc (pc + 2 + length cs) (SV v :: st) (base + nv) (base + n1)
-              (pcb + length cb) st fk (base + nv) (base + nv') o ko K ce n0 (ctr g) rho (base + nv) P
-              (fun i => base + n1 <= i < base + nv') ce HS (le_n _) ltac:(lia) Hko Hoo (le_n _) ltac:(lia) Hkl HK1 HK2 _ eq_refl _ _ (den qs rho v)
-              (N sc pc (SV v :: st) fk vs n o g) _ _ (le_n _))].
-    + intros s0. apply Tend_weaken. intros p m z [Hp _]. exact Hp.
+    refine (bind_std (fun w => den qb ((x, w) :: rho) v) (fun _ => True) sc (pc + 2 + length cs) (SV v :: st) (base + nv) (base + n1)
+              (pcb + length cb) st fk (base + nv) (base + nv') o ko K K0 ce n0 (ctr g) rho (base + nv) P
+              (fun i => base + n1 <= i < base + nv') ce HS (le_n _) ltac:(lia) Hko Hoo (le_n _) ltac:(lia) Hkl HK1 HK2 HK0 _ eq_refl _ _ _ (den qs rho v)
+              (N sc pc (SV v :: st) fk vs n o g) _ _ (le_n _)).
     + intros i Hi. lia.
     + auto.
-    + intros w fk' vs' n' o' z [Hj _] Ho' Ht' Hfk. pose proof Hj as (E' & Hn' & Hl' & Hp').
+    + auto.
+    + intros w fk' vs' n' o' z [Hj _] Ho' Ht' Hfk _ _. pose proof Hj as (E' & Hn' & Hl' & Hp').
       destruct (update_some vs' (base + n1) (SV w)) as [vs'' U]; [lia|].
       destruct (update_spec _ _ _ _ U) as (UL & UN & UO).
       eapply G_pre; [one st_store; one st_expend; apply steps_refl|eapply chg_update; [exact U|simpl; lia]|cl|].
       rewrite <- Epcb.
-      apply (bound_body qb IHb sc cur base Hfr ce x n1 pcb s1 cb nv' sn' Eb Hatb (pcb + length cb) st fk (base + nv) (base + nv') o ko K n0 (ctr g)
+      apply (bound_body qb IHb sc cur base Hfr ce x n1 pcb s1 cb nv' sn' Eb Hatb (pcb + length cb) st fk (base + nv) (base + nv') o ko K K0 n0 (ctr g)
                (fun i => base + n1 <= i < base + nv') fk' o' z rho (base + nv) P w v vs'' n'); auto; try lia.
       all: try (intros i Hi; split; [lia|apply HK1; lia]).
       all: try (eapply Jstd_update; eauto; lia).
@@ -809,18 +883,18 @@ Proof.
   destruct (comp qb (add_lbl ce l (cur, nv)) cur (S pc) (S nv) sn) as [[[cb n1] s1]|] eqn:Ec; [|discriminate].
   inversion Hc; subst cq nv' sn'. clear Hc. rename n1 into nv'.
   destruct (comp_mono _ _ _ _ _ _ _ _ _ Ec) as [M1 _]. uncons Hat A0.
-  std_facts. pose proof (conj S1 S2) as HS. destruct (stable_sub _ _ _ _ _ _ _ _ _ _ _ _ _ HS) as [S1' S2'].
+  std_facts. pose proof (conj S1 S2) as HS. destruct (stable_sub _ _ _ _ _ _ _ _ _ _ _ _ _ _ HS) as [S1' S2'].
   assert (HJ0 : Jstd sc ce rho n0 (base + nv) o P vs n g) by (split; auto).
   assert (Epc : pc + length (Iforklabel (cur, nv) :: cb) = S pc + length cb) by (simpl; lia).
   subst c. rewrite Epc in *.
-  set (c := ctx_of sc (S pc + length cb) st fk (base + nv) (base + nv') o ko K ce n0 (ctr g)).
+  set (c := ctx_of sc (S pc + length cb) st fk (base + nv) (base + nv') o ko K K0 ce n0 (ctr g)).
   destruct (update_some vs (base + nv) (SLbl n)) as [vs1 U]; [lia|].
   destruct (update_spec _ _ _ _ U) as (UL & UN & UO).
   set (fx := F sc pc (SLbl n :: SV v :: st) o (ctr g)).
   set (ceb := add_lbl ce l (cur, nv)).
   set (cx := {| g_sc := sc; g_pc := S pc + length cb; g_st := st; g_base := fx :: fk;
                 g_own := fun i => base + S nv <= i < base + nv' \/ o <= i;
-                g_keep := K; g_ce := ceb; g_n0 := S n; g_off := o; g_koff := ko; g_ctr := ctr g |}).
+                g_keep := K; g_keep0 := K; g_ce := ceb; g_n0 := S n; g_off := o; g_koff := ko; g_ctr := ctr g |}).
   set (Pb := fun a m (x : gx) => Jstd sc ce rho n0 (base + nv) o P a m x /\ nth_error a (base + nv) = Some (SLbl n)).
   assert (HJ1 : Jstd sc ce rho n0 (base + nv) o P vs1 n g) by (eapply Jstd_update; eauto; lia).
   assert (HB : G cx (fst (den qb rho v)) (Tend cx (snd (den qb rho v)) Pb) (N sc (S pc) (SV v :: st) (fx :: fk) vs1 (S n) o g)).
@@ -832,8 +906,8 @@ Proof.
     - intros p q m x m' x' [Hq Hq2] C Hm. split.
       + eapply (Jstd_chg' _ _ _ _ _ _ (base + nv) (base + nv')); [exact S1'| |exact Hq|exact C|exact Hm]. simpl; intros; lia.
       + rewrite <- Hq2. symmetry. apply C. lia.
-    - intros o3 p q m x m' x' Ho3 [Hq Hq2] C Hm. split.
-      + refine (Jstd_stable_cx cx _ _ _ _ _ _ _ _ _ _ K S1' S2' HK2 _ _ o3 _ _ _ _ _ _ _ Hq C Hm); [reflexivity|reflexivity|lia].
+    - intros p q m x m' x' [Hq Hq2] C Hm. split.
+      + exact (Jstd_stable_cx _ _ _ _ _ _ _ _ _ _ _ S1' S2' HK2 HK0 _ _ _ _ _ _ Hq C Hm).
       + rewrite <- Hq2. symmetry. apply C. simpl. apply HK1. lia.
     - split; [|exact UN].
       eapply (Jstd_chg' _ _ _ _ _ _ (base + nv) (base + nv') P (fun _ => False)); [exact S1'| |exact HJ1|apply chg_refl|unfold cle; simpl; lia].
@@ -847,8 +921,9 @@ Proof.
   match goal with |- G _ (fst ?r) _ _ => assert (Hf : fst r = ws)
     by (destruct fin as [[e0|l']|]; [|destruct (N.eqb l l')|]; reflexivity); rewrite Hf end.
   assert (Hfx : Forall (fun f => g_ctr c <= f_ctr f) [fx]) by (constructor; [simpl; lia|constructor]).
-  refine (G_ctx nt code cx c [fx] (fun _ _ _ => True) _ _ eq_refl eq_refl eq_refl eq_refl _ _ _ _ (le_n _) (le_n _) Hfx _ _ _ _ _ _ I HB); auto.
+  refine ((fun Hm => G_ctx nt code cx c [fx] (fun _ _ _ => True) _ _ _ _ eq_refl eq_refl eq_refl eq_refl _ _ _ _ (le_n _) (le_n _) Hfx _ _ _ Hm Hm _ _ I HB) _); auto.
   - simpl; intros; lia.
+  - intros o0 p q Kp. exact (keepS_K _ _ _ _ Kp).
   - simpl; lia.
   - intros y vs' n' g' _ Hy. exists vs', n', g'. split; [apply Htr; auto|]. split; [apply chg_refl|cl].
   - intros z1 _ (e & vs4 & n4 & g4 & St4 & Ch4 & Le4 & HE4 & ((E4 & Hn4 & Hl4 & HP4) & Hlab)). simpl in St4, Ch4. cbn [g_sc g_ce cx] in HE4.
@@ -871,34 +946,38 @@ Proof.
 Qed.
 
 (* the exit of a try body: forktryend pushes a fork per output, then jumps to the end *)
-Lemma G_tryend : forall sc pe pend st fb fk (O K : nat -> Prop) ce n0 o ko t (T T' : state -> Prop),
+Lemma G_tryend : forall sc pe pend st fb fk (O K K0 K0' : nat -> Prop) ce n0 o ko t (T Tw T' Tw' : state -> Prop),
   at_ pe Iforktryend -> at_ (S pe) (Ijump pend) ->
   (forall x vs n g, steps (B (Some (VT x)) (fb :: fk) vs n g) (B (Some x) fk vs n g)) ->
-  t <= f_ctr fb ->
-  (forall s, T s -> T' s) ->
+  t <= f_ctr fb -> (forall i, K0 i -> K i) ->
+  (forall s, T s -> T' s) -> (forall s, Tw s -> T' s) ->
   forall ws s, t <= ctr (gx_of s) ->
-  G {| g_sc := sc; g_pc := pe; g_st := st; g_base := fb :: fk; g_own := O; g_keep := K; g_ce := ce; g_n0 := n0; g_off := o; g_koff := ko; g_ctr := t |} ws T s ->
-  G {| g_sc := sc; g_pc := pend; g_st := st; g_base := fk; g_own := O; g_keep := K; g_ce := ce; g_n0 := n0; g_off := o; g_koff := ko; g_ctr := t |} ws T' s.
+  G2 {| g_sc := sc; g_pc := pe; g_st := st; g_base := fb :: fk; g_own := O; g_keep := K; g_keep0 := K0; g_ce := ce; g_n0 := n0; g_off := o; g_koff := ko; g_ctr := t |} ws T Tw s ->
+  G2 {| g_sc := sc; g_pc := pend; g_st := st; g_base := fk; g_own := O; g_keep := K; g_keep0 := K0'; g_ce := ce; g_n0 := n0; g_off := o; g_koff := ko; g_ctr := t |} ws T' Tw' s.
 Proof.
-  intros sc pe pend st fb fk O K ce n0 o ko t T T' A1 A2 Hun Hfb HT. induction ws; intros s Hs HG.
+  intros sc pe pend st fb fk O K K0 K0' ce n0 o ko t T Tw T' Tw' A1 A2 Hun Hfb HK0 HT HTw. induction ws; intros s Hs HG.
   - simpl in *. destruct HG as (s' & St & Ch & Le & H). exists s'. auto.
   - simpl in HG. destruct HG as (fk' & vs3 & n3 & o3 & g3 & St & Ch & Le & [Ho Hfk] & R).
     assert (Hc3 : t <= ctr g3) by (destruct Le; lia).
-    eapply (G_cons nt code _ a ws _ _ (F sc pe (SV a :: st) o3 (ctr g3) :: fk' ++ [fb]) vs3 n3 o3 g3); simpl.
+    eapply (G_cons nt code _ a ws _ _ _ (F sc pe (SV a :: st) o3 (ctr g3)) (fk' ++ [fb]) vs3 n3 o3 g3); simpl.
     + eapply steps_trans; [exact St|]. one st_forktryend. one st_jump. rewrite <- app_assoc. apply steps_refl.
     + exact Ch.
     + exact Le.
     + exact Ho.
     + constructor; [simpl; lia|]. apply Forall_app. split; [exact Hfk|constructor; [exact Hfb|constructor]].
-    + intros vs2 n2 g2 Kp L2.
-      assert (Kp' : keepS' {| g_sc := sc; g_pc := pe; g_st := st; g_base := fb :: fk; g_own := O; g_keep := K; g_ce := ce; g_n0 := n0;
-                              g_off := o; g_koff := ko; g_ctr := t |} o3 fk' vs3 vs2).
-      { simpl in Kp. destruct fk'; simpl; [exact (keepS_K _ _ _ _ Kp)|exact Kp]. }
-      destruct (R vs2 n2 g2 Kp' L2) as [R1 R2]. rewrite <- app_assoc. simpl. split.
-      * eapply G_pre; [one st_popfork; one bt_tryend; apply steps_refl|apply chg_refl|cl|].
-        apply IHws; [simpl; destruct L2; lia|exact R1].
-      * intros x Hx. destruct (R2 (VT x) I) as (vs4 & n4 & g4 & St4 & Ch4 & Le4). exists vs4, n4, g4.
-        split; [|auto]. one st_popfork. one bt_tryend. eapply steps_trans; [exact St4|apply Hun].
+    + intros vs2 n2 g2 Kp L2. rewrite <- app_assoc. simpl.
+      destruct fk' as [|f0 fk0].
+      * destruct R as [E R]. subst ws. simpl. split.
+        -- exists (B None (fb :: fk) vs2 n2 g2). split; [one st_popfork; one bt_tryend; apply steps_refl|].
+           split; [apply chg_refl|]. split; [cl|]. apply HTw. apply R; [|exact L2].
+           exact (keepX_mono _ _ _ _ HK0 (keepS_K _ _ _ _ Kp)).
+        -- intros x Hx. exists vs2, n2, g2. split; [|split; [apply chg_refl|cl]].
+           one st_popfork. one bt_tryend. apply Hun.
+      * destruct (R vs2 n2 g2 Kp L2) as [R1 R2]. split.
+        -- eapply G_pre; [one st_popfork; one bt_tryend; apply steps_refl|apply chg_refl|cl|].
+           apply IHws; [simpl; destruct L2; lia|exact R1].
+        -- intros x Hx. destruct (R2 (VT x) I) as (vs4 & n4 & g4 & St4 & Ch4 & Le4). exists vs4, n4, g4.
+           split; [|auto]. one st_popfork. one bt_tryend. eapply steps_trans; [exact St4|apply Hun].
 Qed.
 
 Lemma impl_try : forall qa h, Impl qa -> Popt Impl h -> Impl (QTry qa h).
@@ -906,7 +985,7 @@ Proof.
   intros qa h IHa IHh. impl_intro. simpl in Hc.
   destruct (comp qa ce cur (S pc) nv sn) as [[[ca n1] s1]|] eqn:Ea; [|discriminate].
   destruct (comp_mono _ _ _ _ _ _ _ _ _ Ea) as [M1 _].
-  std_facts. pose proof (conj S1 S2) as HS. destruct (stable_sub _ _ _ _ _ _ _ _ _ _ _ _ _ HS) as [S1' S2'].
+  std_facts. pose proof (conj S1 S2) as HS. destruct (stable_sub _ _ _ _ _ _ _ _ _ _ _ _ _ _ HS) as [S1' S2'].
   set (hp := pc + 1 + length ca + 2) in *.
   set (fb := F sc pc (SV v :: st) o (ctr g)).
   assert (Hsh : exists ch, cq = Iforktrybegin hp :: ca ++ Iforktryend :: Ijump (hp + length ch) :: ch /\ n1 <= nv' /\
@@ -924,11 +1003,11 @@ Proof.
   assert (Epc : pc + length (Iforktrybegin hp :: ca ++ Iforktryend :: Ijump (hp + length ch) :: ch) = hp + length ch).
   { simpl. rewrite app_length. simpl. unfold hp. lia. }
   subst c. rewrite Epc in *.
-  set (c := ctx_of sc (hp + length ch) st fk (base + nv) (base + nv') o ko K ce n0 (ctr g)).
+  set (c := ctx_of sc (hp + length ch) st fk (base + nv) (base + nv') o ko K K0 ce n0 (ctr g)).
   set (Pa := Jstd sc ce rho n0 (base + nv) o P).
-  set (ca0 := ctx_of sc (S pc + length ca) st (fb :: fk) (base + nv) (base + n1) o ko K ce n0 (ctr g)).
+  set (ca0 := ctx_of sc (S pc + length ca) st (fb :: fk) (base + nv) (base + n1) o ko K K ce n0 (ctr g)).
   assert (HA : G ca0 (fst (den qa rho v)) (Tend ca0 (snd (den qa rho v)) Pa) (N sc (S pc) (SV v :: st) (fb :: fk) vs n o g)).
-  { apply (IHa sc cur base Hfr ce (S pc) nv sn ca n1 s1 Ea Hata rho v st (fb :: fk) vs n n0 o ko g K Pa); auto; try lia.
+  { apply (IHa sc cur base Hfr ce (S pc) nv sn ca n1 s1 Ea Hata rho v st (fb :: fk) vs n n0 o ko g K K Pa); auto; try lia.
     - intros; apply HK1; lia.
     - eapply Jstd_stable; eauto; lia.
     - split; auto. }
@@ -952,15 +1031,15 @@ Proof.
     destruct (snd (den qa rho v)) as [[e0|l']|]; simpl in HE4.
     - subst e. destruct h as [h'|].
       + eapply G_pre; [eapply steps_trans; [exact St4|one st_popfork; one bt_trybegin_catch; apply steps_refl]|exact Ch4'|exact Le4|].
-        pose proof (IHh sc cur base Hfr ce hp n1 s1 ch nv' sn' Hh Hath rho (errval e0) st fk vs4 n4 n0 o ko g4 K P) as HB. cbv zeta in HB.
-        refine (G_sub nt code (ctx_of sc (hp + length ch) st fk (base + n1) (base + nv') o ko K ce n0 (ctr g4)) c _ _
-                  eq_refl eq_refl eq_refl eq_refl _ _ _ (le_n _) (le_n _) _ _ _ _ (HB _ _ _ _ _ _ _ _ _)); auto; try lia.
+        pose proof (IHh sc cur base Hfr ce hp n1 s1 ch nv' sn' Hh Hath rho (errval e0) st fk vs4 n4 n0 o ko g4 K K0 P) as HB. cbv zeta in HB.
+        refine (G_sub nt code (ctx_of sc (hp + length ch) st fk (base + n1) (base + nv') o ko K K0 ce n0 (ctr g4)) c _ _
+                  eq_refl eq_refl eq_refl eq_refl _ _ _ (le_n _) (le_n _) _ _ _ _ (HB _ _ _ _ _ _ _ _ _ _)); auto; try lia.
         * simpl; intros; lia.
         * simpl. destruct Le4; lia.
         * intros s2'. apply Tend_sub; auto. simpl; intros; lia.
         * eapply envOK_lim; eauto. lia.
         * intros; apply HK1; lia.
-        * eapply stable_P_sub; eauto; lia.
+        * eapply stable_P_sub; [exact S1'|exact S2'|exact (fun i H => H)|lia|lia|lia].
       + destruct Hh as [-> ->]. uncons Hath A3.
         exists None, vs4, n4, g4. split; [|split; [exact Ch4'|split; [exact Le4|split; [reflexivity|exact HP4]]]].
         eapply steps_trans; [exact St4|]. one st_popfork. one bt_trybegin_catch. one st_backtrack. apply steps_refl.
@@ -973,30 +1052,33 @@ Proof.
   (* carry the counter bound to the tail *)
   assert (HA' : G ca0 (fst (den qa rho v)) (fun z1 => ctr g <= ctr (gx_of z1) /\ Tend ca0 (snd (den qa rho v)) Pa z1)
                   (N sc (S pc) (SV v :: st) (fb :: fk) vs n o g)).
-  { match type of HA with G _ ?w0 _ ?st0 =>
-      refine (G_ctx nt code ca0 ca0 [] (fun _ _ gg => ctr g <= ctr gg) _ _ eq_refl eq_refl eq_refl eq_refl (fun _ H => H) (fun _ _ _ H => H) (fun _ _ H => H)
-                (le_n _) (le_n _) (le_n _) (Forall_nil _) _ _ _ _ w0 st0 (le_n _) HA) end.
+  { match type of HA with G2 _ ?w0 _ _ ?st0 =>
+      refine (G_ctx nt code ca0 ca0 [] (fun _ _ gg => ctr g <= ctr gg) _ _ _ _ eq_refl eq_refl eq_refl eq_refl (fun _ H => H) (fun _ _ _ H => H) (fun _ _ _ H => H)
+                (le_n _) (le_n _) (le_n _) (Forall_nil _) _ _ _ _ _ w0 st0 (le_n _) HA) end.
     - intros; unfold cle in *; lia.
     - intros; unfold cle in *; lia.
     - intros x vs' n' g' _ _. exists vs', n', g'. split; [apply steps_refl|]. split; [apply chg_refl|cl].
+    - intros z1 Hz Ht. split; auto.
     - intros z1 Hz Ht. split; auto. }
-  pose proof (G_tryend sc (S pc + length ca) (hp + length ch) st fb fk _ K ce n0 o ko (ctr g) _ Tfin A1 A2 Hun (le_n _) HT (fst (den qa rho v)) (N sc (S pc) (SV v :: st) (fb :: fk) vs n o g) (le_n _) HA') as HG.
-  assert (HG' : G c (fst (den qa rho v)) Tfin (N sc (S pc) (SV v :: st) (fb :: fk) vs n o g)).
-  { refine (G_sub nt code (ctx_of sc (hp + length ch) st fk (base + nv) (base + n1) o ko K ce n0 (ctr g)) c _ _
-              eq_refl eq_refl eq_refl eq_refl _ _ _ (le_n _) (le_n _) (le_n _) (fun s H => H) _ _ HG); auto.
+  assert (HG : forall Tw', G2 c (fst (den qa rho v)) Tfin Tw' (N sc (S pc) (SV v :: st) (fb :: fk) vs n o g)).
+  { intros Tw'.
+    pose proof (G_tryend sc (S pc + length ca) (hp + length ch) st fb fk _ K K K0 ce n0 o ko (ctr g) _ _ Tfin Tw' A1 A2 Hun (le_n _) (fun i H => H) HT HT
+                  (fst (den qa rho v)) (N sc (S pc) (SV v :: st) (fb :: fk) vs n o g) (le_n _) HA') as HG.
+    refine (G2_sub nt code (ctx_of sc (hp + length ch) st fk (base + nv) (base + n1) o ko K K0 ce n0 (ctr g)) c _ _ _ _
+              eq_refl eq_refl eq_refl eq_refl _ _ _ (le_n _) (le_n _) (le_n _) (fun s H => H) (fun s H => H) _ _ HG); auto.
     simpl; intros; lia. }
-  clear HG HA HA'. cbn [Den.den].
-  assert (HG2 : G c (fst (den qa rho v))
+  clear HA HA'. cbn [Den.den].
+  assert (HG2 : forall Tw', G2 c (fst (den qa rho v))
             (fun z1 => match snd (den qa rho v) with
                        | Some (XErr e0) => match h with
                                            | Some h' => G c (fst (den h' rho (errval e0))) (Tend c (snd (den h' rho (errval e0))) P) z1
                                            | None => Tend c None P z1 end
-                       | fin => Tend c fin P z1 end) (N sc (S pc) (SV v :: st) (fb :: fk) vs n o g)).
-  { eapply G_impl; [|exact HG']. intros z1 [_ H]. exact H. }
-  clear HG'.
-  destruct (den qa rho v) as [ws [[e0|l']|]]; cbn [fst snd] in *; try exact HG2.
-  destruct h as [h'|]; [|exact HG2].
-  destruct (den h' rho (errval e0)) as [wh fh] eqn:Edh. cbn [seq fst snd] in *. apply G_app. exact HG2.
+                       | fin => Tend c fin P z1 end) Tw' (N sc (S pc) (SV v :: st) (fb :: fk) vs n o g)).
+  { intros Tw'. eapply G2_impl; [| |exact (HG Tw')]; [intros z1 [_ H]; exact H|auto]. }
+  clear HG.
+  destruct (den qa rho v) as [ws [[e0|l']|]]; cbn [fst snd] in *; try exact (HG2 _).
+  destruct h as [h'|]; [|exact (HG2 _)].
+  destruct (den h' rho (errval e0)) as [wh fh] eqn:Edh. cbn [seq fst snd] in *. apply G_app. exact (HG2 _).
 Qed.
 
 Lemma foldgen_collect : forall ws l0,
@@ -1011,7 +1093,7 @@ Proof.
   intros q IHq. impl_intro. simpl in Hc.
   destruct (comp q ce cur (pc + 3) (S nv) sn) as [[[cq' n1] s1]|] eqn:Eq; [|discriminate].
   destruct (comp_mono _ _ _ _ _ _ _ _ _ Eq) as [M1 _].
-  std_facts. pose proof (conj S1 S2) as HS. destruct (stable_sub _ _ _ _ _ _ _ _ _ _ _ _ _ HS) as [S1' S2'].
+  std_facts. pose proof (conj S1 S2) as HS. destruct (stable_sub _ _ _ _ _ _ _ _ _ _ _ _ _ _ HS) as [S1' S2'].
   cbn [Den.den].
   destruct (array_fold q) as [cs|] eqn:Ef.
   - (* folded to a constant *)
@@ -1029,7 +1111,7 @@ Proof.
                     [Iappend (cur, nv); Ibacktrack; Ipop; Iload (cur, nv)]) = pa + 4).
     { simpl. rewrite app_length. simpl. unfold pa. lia. }
     subst c. rewrite Epc in *.
-    set (c := ctx_of sc (pa + 4) st fk (base + nv) (base + n1) o ko K ce n0 (ctr g)).
+    set (c := ctx_of sc (pa + 4) st fk (base + nv) (base + n1) o ko K K0 ce n0 (ctr g)).
     destruct (update_some vs (base + nv) (SV (VArr []))) as [vs1 U]; [lia|].
     destruct (update_spec _ _ _ _ U) as (UL & UN & UO).
     set (fx := F sc (S (S pc)) (SV v :: st) o (ctr g)).
@@ -1043,25 +1125,33 @@ Proof.
                   ltac:(eapply envOK_lim; eauto; lia) Hn ltac:(lia) Hl1) as HA. cbv zeta in HA. fold pa in HA.
     set (fb := fun (l : list jv) (w : jv) => (@nil jv, @None exn, l ++ [w])).
     set (Jg := fun (l : list jv) (a : list sv) => nth_error a (base + nv) = Some (SV (VArr l))).
-    pose proof (fold_std sc pa st (base + S nv) (base + n1) 0 st (fx :: fk) (base + nv) (base + n1) o ko K ce n0 (ctr g) rho (base + nv) P
-                  (list jv) Jg fb (fun i => i = base + nv) ce
-                  HS ltac:(lia) (le_n _) Hko Hoo (le_n _) ltac:(lia) Hkl HK1 HK2) as HF. cbv zeta in HF.
+    assert (HS0 : stable (ctx_of sc 0 st (fx :: fk) (base + nv) (base + n1) o ko K K ce n0 (ctr g)) P)
+      by (eapply stable_P_sub; [exact S1'|exact S2'|exact HK0|lia|lia|lia]).
+    assert (HJg1 : forall (l : list jv) a b, Jg l a -> chg (fun i => base + S nv <= i < base + n1 \/ o <= i) a b -> Jg l b).
+    { intros l a b Hg C. unfold Jg in *. rewrite <- Hg. symmetry. apply C. lia. }
+    assert (HJgK : forall (l : list jv) a b, Jg l a -> keepX K a b -> Jg l b).
+    { intros l a b Hg C. unfold Jg in *. rewrite <- Hg. symmetry. apply C. apply HK1. lia. }
+    pose proof (fold_std sc pa st (base + S nv) (base + n1) 0 st (fx :: fk) (base + nv) (base + n1) o ko K K ce n0 (ctr g) rho (base + nv) P P
+                  (list jv) Jg Jg fb (fun i => i = base + nv) ce
+                  HS0 ltac:(lia) (le_n _) Hko Hoo (le_n _) ltac:(lia) Hkl HK1 HK2 (fun i H => H)) as HF. cbv zeta in HF.
     destruct (den q rho v) as [ws fin] eqn:Ed. cbn [fst snd] in HA.
-    set (c0 := ctx_of sc 0 st (fx :: fk) (base + nv) (base + n1) o ko K ce n0 (ctr g)).
-    assert (HG : G c0 [] (Tend c0 fin (fun a m x => Jstd sc ce rho n0 (base + nv) o P a m x /\ Jg ws a))
+    set (c0 := ctx_of sc 0 st (fx :: fk) (base + nv) (base + n1) o ko K K ce n0 (ctr g)).
+    assert (HG : G c0 [] (Tend c0 fin (fun a m x => P a m x /\ Jg ws a))
                    (N sc (pc + 3) (SV v :: st) (fx :: fk) vs1 n o g)).
-    { refine (HF _ eq_refl _ _ ws [] _ fin [] None ws HA _ (le_n _) (foldgen_collect ws [])).
+    { refine (HF _ eq_refl (fun a m x Hj => proj2 (proj2 (proj2 Hj)))
+                (fun a b m x m' x' Hp C Hm => S1' (fun i => base + S nv <= i < base + n1 \/ o <= i) a b m x m' x' ltac:(simpl; intros; lia) Hp C Hm)
+                (fun a b m x m' x' Hp C Hm => S2' K a b m x m' x' HK0 Hp C Hm)
+                HJg1 HJg1 HJgK HJgK (fun _ _ H => H) _ ws [] _ fin [] None ws HA _ (le_n _) (foldgen_collect ws [])).
       - intros i ->. lia.
-      - intros l a b Hg C. unfold Jg in *. rewrite <- Hg. symmetry. apply C. lia.
-      - intros w l fk' vs' n' o' x os' x' g' [Hj Hg] Ho' Ht' Hfk Efb. unfold fb in Efb. inversion Efb; subst os' x' g'.
+      - intros w l fk' vs' n' o' x os' x' g' [Hj Hg] Ho' Ht' Hfk Efb Hwk Hin. unfold fb in Efb. inversion Efb; subst os' x' g'.
         pose proof Hj as (E' & Hn' & Hl' & Hp').
         destruct (update_some vs' (base + nv) (SV (VArr (l ++ [w])))) as [vs'' U']; [lia|].
         destruct (update_spec _ _ _ _ U') as (UL' & UN' & UO').
         eapply G_end; [one st_append; one st_backtrack; apply steps_refl
                       |eapply chg_update; [exact U'|simpl; auto]|cl|reflexivity|].
-        split; [eapply Jstd_update; eauto; lia|exact UN'].
+        apply Hin. split; [eapply Jstd_update; eauto; lia|exact UN'].
       - split; [split; auto|exact UN]. }
-    simpl in HG. destruct HG as (s' & St & Ch & Le & (e & vs4 & n4 & g4 & St4 & Ch4 & Le4 & HE4 & ((E4 & Hn4 & Hl4 & HP4) & Hg4))).
+    simpl in HG. destruct HG as (s' & St & Ch & Le & (e & vs4 & n4 & g4 & St4 & Ch4 & Le4 & HE4 & (HP4 & Hg4))).
     simpl in St4, Ch4. cbn [g_sc g_ce c0 ctx_of] in HE4.
     assert (Ch' : chg (g_own c) vs1 vs4) by (eapply chg_trans; eauto).
     assert (Le' : cle n g n4 g4) by (eapply cle_trans; eauto).
@@ -1071,10 +1161,10 @@ Proof.
                     |exact Ch'|exact Le'|exact HE4|exact HP4].
     + subst e.
       eapply G_single with (vs3 := vs4) (n3 := n4) (o3 := o) (g3 := g4);
-        [eapply steps_trans; [exact St|eapply steps_trans; [exact St4|]]|exact Ch'|exact Le'|simpl; lia|].
+        [eapply steps_trans; [exact St|eapply steps_trans; [exact St4|]]|exact Ch'|exact Le'|pose proof (proj1 Ch'); simpl; lia|].
       * one st_popfork. one bt_fork_none. replace (pa + 2) with (S (S pa)) by lia. one st_pop. one st_load.
         replace (S (S (S (S pa)))) with (pa + 4) by lia. apply steps_refl.
-      * intros; eapply (S2' c o); eauto.
+      * intros vs2 n2 g2 Kp L2. exact (S2' K0 _ _ _ _ _ _ (fun i H => H) HP4 Kp L2).
 Qed.
 
 Lemma foldgen_alt : forall ws g,
@@ -1093,7 +1183,7 @@ Proof.
   destruct (comp qb ce cur (pc + 3 + length ca + 11) n1 s1) as [[[cb n2] s2]|] eqn:Ec0; [|discriminate].
   inversion Hc; subst cq nv' sn'. clear Hc.
   destruct (comp_mono _ _ _ _ _ _ _ _ _ Ec) as [M1 _]. destruct (comp_mono _ _ _ _ _ _ _ _ _ Ec0) as [M2 _].
-  std_facts. pose proof (conj S1 S2) as HS. destruct (stable_sub _ _ _ _ _ _ _ _ _ _ _ _ _ HS) as [S1' S2'].
+  std_facts. pose proof (conj S1 S2) as HS. destruct (stable_sub _ _ _ _ _ _ _ _ _ _ _ _ _ _ HS) as [S1' S2'].
   assert (HJ0 : Jstd sc ce rho n0 (base + nv) o P vs n g) by (split; auto).
   set (p1 := pc + 3 + length ca) in *.
   uncons Hat A0. uncons Hat A1. uncons Hat A2. replace (S (S (S pc))) with (pc + 3) in Hat by lia.
@@ -1110,7 +1200,7 @@ Proof.
     assert (Epc : pc + length l = p1 + 11 + length cb)
       by (simpl; repeat (rewrite app_length; simpl); unfold p1; lia); rewrite Epc in * end.
   set (pend := p1 + 11 + length cb) in *.
-  set (c := ctx_of sc pend st fk (base + nv) (base + n2) o ko K ce n0 (ctr g)).
+  set (c := ctx_of sc pend st fk (base + nv) (base + n2) o ko K K0 ce n0 (ctr g)).
   destruct (update_some vs (base + nv) (SV (VBool false))) as [vs1 U]; [lia|].
   destruct (update_spec _ _ _ _ U) as (UL & UN & UO).
   set (fx := F sc (S (S pc)) (SV v :: st) o (ctr g)).
@@ -1123,31 +1213,37 @@ Proof.
                 ltac:(eapply envOK_lim; eauto; lia) Hn ltac:(lia) Hl1) as HA. cbv zeta in HA. fold p1 in HA.
   set (fb := fun (b : bool) (w : jv) => if truthy w then ([w], @None exn, true) else ([], None, b)).
   set (Jg := fun (b : bool) (a : list sv) => nth_error a (base + nv) = Some (SV (VBool b))).
-  pose proof (fold_std sc p1 st (base + S nv) (base + n1) pend st (fx :: fk) (base + nv) (base + n2) o ko K ce n0 (ctr g) rho (base + nv) P
-                bool Jg fb (fun i => i = base + nv) ce
-                HS ltac:(lia) ltac:(lia) Hko Hoo (le_n _) ltac:(lia) Hkl HK1 HK2) as HF. cbv zeta in HF.
+  assert (HS0 : stable (ctx_of sc pend st (fx :: fk) (base + nv) (base + n2) o ko K K ce n0 (ctr g)) P)
+    by (eapply stable_P_sub; [exact S1'|exact S2'|exact HK0|lia|lia|lia]).
+  assert (HJg1 : forall (b : bool) p q, Jg b p -> chg (fun i => base + S nv <= i < base + n1 \/ o <= i) p q -> Jg b q).
+  { intros b p q Hg C. unfold Jg in *. rewrite <- Hg. symmetry. apply C. lia. }
+  assert (HJgK : forall (b : bool) p q, Jg b p -> keepX K p q -> Jg b q).
+  { intros b p q Hg C. unfold Jg in *. rewrite <- Hg. symmetry. apply C. apply HK1. lia. }
+  pose proof (fold_std sc p1 st (base + S nv) (base + n1) pend st (fx :: fk) (base + nv) (base + n2) o ko K K ce n0 (ctr g) rho (base + nv) P
+                (Jstd sc ce rho n0 (base + nv) o P)
+                bool Jg Jg fb (fun i => i = base + nv) ce
+                HS0 ltac:(lia) ltac:(lia) Hko Hoo (le_n _) ltac:(lia) Hkl HK1 HK2 (fun i H => H)) as HF. cbv zeta in HF.
   destruct (den qa rho v) as [ws fin] eqn:Ed. cbn [fst snd] in HA.
   set (ts := filter truthy ws).
   set (gf := match ts with [] => false | _ => true end).
-  set (c0 := ctx_of sc pend st (fx :: fk) (base + nv) (base + n2) o ko K ce n0 (ctr g)).
+  set (c0 := ctx_of sc pend st (fx :: fk) (base + nv) (base + n2) o ko K K ce n0 (ctr g)).
   assert (HG : G c0 ts (Tend c0 fin (fun a m x => Jstd sc ce rho n0 (base + nv) o P a m x /\ Jg gf a))
                  (N sc (pc + 3) (SV v :: st) (fx :: fk) vs1 n o g)).
-  { refine (HF _ eq_refl _ _ ws false _ fin ts None gf HA _ (le_n _) (foldgen_alt ws false)).
+  { refine (HF _ eq_refl (fun a m x Hj => Hj) _ _ HJg1 HJg1 HJgK HJgK (fun _ _ H => H) _ ws false _ fin ts None gf HA _ (le_n _) (foldgen_alt ws false)).
     - intros i ->. lia.
-    - intros b p q Hg C. unfold Jg in *. rewrite <- Hg. symmetry. apply C. lia.
-    - intros w b fk' vs' n' o' x os' x' g' [Hj Hg] Ho' Ht' Hfk Efb. unfold fb in Efb. pose proof Hj as (E' & Hn' & Hl' & Hp').
+    - intros p q m x m' x' Hq C Hm. eapply (Jstd_chg' _ _ _ _ _ _ (base + nv) (base + n2)); [exact S1'| |exact Hq|exact C|exact Hm]. simpl; intros; lia.
+    - intros p q m x m' x' Hq C Hm. exact (Jstd_stable_cx _ _ _ _ _ _ _ _ _ _ _ S1' S2' HK2 HK0 _ _ _ _ _ _ Hq C Hm).
+    - intros w b fk' vs' n' o' x os' x' g' [Hj Hg] Ho' Ht' Hfk Efb Hwk Hin. unfold fb in Efb. pose proof Hj as (E' & Hn' & Hl' & Hp').
       eapply G_pre; [one st_dup; one st_jumpifnot; apply steps_refl|apply chg_refl|cl|].
       destruct (truthy w); inversion Efb; subst os' x' g'.
       + destruct (update_some vs' (base + nv) (SV (VBool true))) as [vs'' U']; [lia|].
         destruct (update_spec _ _ _ _ U') as (UL' & UN' & UO').
         eapply G_single with (vs3 := vs'') (n3 := n') (o3 := o') (g3 := x);
           [one st_push; one st_store; one st_jump; apply steps_refl|eapply chg_update; [exact U'|simpl; auto]|cl|simpl; lia|].
-        intros vs2 n2' g2 Kp L2. split.
-        * assert (Hj'' : Jstd sc ce rho n0 (base + nv) o P vs'' n' x) by (eapply Jstd_update; eauto; lia).
-          refine (Jstd_stable_cx _ _ _ _ _ _ _ _ _ _ _ K S1' S2' HK2 _ _ o' _ _ _ _ _ _ _ Hj'' Kp L2); [reflexivity|reflexivity|lia].
-        * unfold Jg. rewrite <- UN'. symmetry. apply Kp. simpl. apply HK1. lia.
+        intros vs2 n2' g2 Kp L2.
+        eapply Hwk; [apply Hin; split; [eapply Jstd_update; eauto; lia|exact UN']|exact Kp|exact L2].
       + eapply G_end; [replace (p1 + 5) with (S (S (S (S (S p1))))) by lia; one st_pop; one st_backtrack; apply steps_refl
-                      |apply chg_refl|cl|reflexivity|split; auto].
+                      |apply chg_refl|cl|reflexivity|apply Hin; split; auto].
     - split; [exact HJ1|exact UN]. }
   (* from the base with the fork of // to the base below it *)
   cbn [Den.den]. rewrite Ed. fold ts.
@@ -1161,9 +1257,9 @@ Proof.
      end).
   assert (Hfx : Forall (fun f => g_ctr c <= f_ctr f) [fx]) by (constructor; [simpl; lia|constructor]).
   assert (HG2 : G c ts Tfin (N sc (pc + 3) (SV v :: st) (fx :: fk) vs1 n o g)).
-  { match type of HG with G _ ?w0 _ ?st0 =>
-      refine (G_ctx nt code c0 c [fx] (fun _ _ gg => ctr g <= ctr gg) _ _
-              eq_refl eq_refl eq_refl eq_refl (fun _ H => H) (fun _ _ _ H => H) (fun _ _ H => H) (le_n _) (le_n _) (le_n _) Hfx _ _ _ _ w0 st0 (le_n _) HG) end;
+  { match type of HG with G2 _ ?w0 _ _ ?st0 =>
+      refine ((fun Hm => G_ctx nt code c0 c [fx] (fun _ _ gg => ctr g <= ctr gg) _ _ _ _
+              eq_refl eq_refl eq_refl eq_refl (fun _ H => H) (fun _ _ _ H => H) (fun o a b H => keepS_K _ _ _ _ H) (le_n _) (le_n _) (le_n _) Hfx _ _ _ Hm Hm w0 st0 (le_n _) HG) _) end;
       try (intros; unfold cle in *; simpl in *; lia).
     - intros x vs' n' g' _ _. exists vs', n', g'. split; [eapply fork_transparent; eauto|]. split; [apply chg_refl|cl].
     - intros z1 Hz (e & vs4 & n4 & g4 & St4 & Ch4 & Le4 & HE4 & ((E4 & Hn4 & Hl4 & HP4) & Hg4)). simpl in St4, Ch4. cbn [g_sc g_ce c0 ctx_of] in HE4.
@@ -1180,46 +1276,50 @@ Proof.
         destruct ts as [|t0 ts'].
         * eapply G_pre; [exact (StL false Hg4)|exact Ch4|exact Le4|].
           replace (S (S (S (S (S (S (S (S (S (S (S p1))))))))))) with (p1 + 11) in Hatb by lia.
-          pose proof (IHb sc cur base Hfr ce (p1 + 11) n1 s1 cb n2 s2 Ec0 Hatb rho v st fk vs4 n4 n0 o ko g4 K P) as HB. cbv zeta in HB.
-          refine (G_sub nt code (ctx_of sc pend st fk (base + n1) (base + n2) o ko K ce n0 (ctr g4)) c _ _
-                    eq_refl eq_refl eq_refl eq_refl _ _ _ (le_n _) (le_n _) _ _ _ _ (HB _ _ _ _ _ _ _ _ _)); auto; try lia.
+          pose proof (IHb sc cur base Hfr ce (p1 + 11) n1 s1 cb n2 s2 Ec0 Hatb rho v st fk vs4 n4 n0 o ko g4 K K0 P) as HB. cbv zeta in HB.
+          refine (G_sub nt code (ctx_of sc pend st fk (base + n1) (base + n2) o ko K K0 ce n0 (ctr g4)) c _ _
+                    eq_refl eq_refl eq_refl eq_refl _ _ _ (le_n _) (le_n _) _ _ _ _ (HB _ _ _ _ _ _ _ _ _ _)); auto; try lia.
           -- simpl; intros; lia.
           -- simpl. simpl in Hz. destruct Le4; lia.
           -- intros s2'. apply Tend_sub; auto. simpl; intros; lia.
           -- eapply envOK_lim; eauto. lia.
           -- intros; apply HK1; lia.
-          -- eapply stable_P_sub; eauto; lia.
+          -- eapply stable_P_sub; [exact S1'|exact S2'|exact (fun i H => H)|lia|lia|lia].
         * exists None, vs4, n4, g4. split; [|split; [exact Ch4|split; [exact Le4|split; [reflexivity|exact HP4]]]].
           eapply steps_trans; [exact (StL true Hg4)|]. one st_backtrack. apply steps_refl. }
   unfold Tfin in HG2. destruct fin as [x|]; cbn [fst snd]; [exact HG2|].
   destruct ts as [|t0 ts'] eqn:Ets; cbn [fst snd]; [|exact HG2].
-  change (G c ([] ++ fst (den qb rho v)) (Tend c (snd (den qb rho v)) P) (N sc (pc + 3) (SV v :: st) (fx :: fk) vs1 n o g)).
-  apply G_app. exact HG2.
+  apply G_app_nil. exact HG2.
 Qed.
 
-(* G_fold with the invariant J = Jstd /\ Jg, for contexts given by arbitrary own sets *)
+(* G_fold with the invariant J = Jstd /\ Jg, for contexts given by arbitrary own sets; Jf is the tail
+   predicate the caller needs *)
 Lemma fold_gen : forall (c1 c : gctx) rho lim ol (P : list sv -> nat -> gx -> Prop) (X : Type) (Jg : X -> list sv -> Prop)
+   (Jf : X -> list sv -> nat -> gx -> Prop)
    (fb : X -> jv -> list jv * option exn * X) (ownb0 : nat -> Prop) (ceb : cenv),
    let J := fun g a m x => Jstd (g_sc c) (g_ce c) rho (g_n0 c) lim ol P a m x /\ Jg g a in
    g_sc c1 = g_sc c -> g_base c1 = g_base c -> g_ce c1 = g_ce c -> g_n0 c1 = g_n0 c -> g_off c1 = g_off c -> g_ctr c1 = g_ctr c ->
    g_koff c1 = g_off c -> g_koff c <= g_off c ->
    (forall i, g_own c1 i -> g_own c i) -> (forall i, ownb0 i -> g_own c i /\ i < g_off c) -> (forall i, g_off c <= i -> g_own c i) ->
    (forall i, g_keep c1 i -> g_keep c i /\ ~ ownb0 i /\ i < g_off c) ->
+   (forall i, g_keep0 c1 i -> g_keep0 c i /\ g_keep c i /\ ~ ownb0 i /\ i < g_off c) ->
    (forall i, kept (g_sc c) (g_ce c) i -> ~ g_own c i) ->
    ce_lbls ceb = ce_lbls (g_ce c) ->
    (forall a b m x m' x', P a m x -> chg (g_own c1) a b -> cle m x m' x' -> P b m' x') ->
    (forall g a b, Jg g a -> chg (g_own c1) a b -> Jg g b) ->
+   (forall g a b m x m' x', Jf g a m x -> chg (g_own c1) a b -> cle m x m' x' -> Jf g b m' x') ->
+   (forall g a m x, J g a m x -> Jf g a m x) ->
    (forall w g fk' vs n o x os xx g', J g vs n x -> g_off c <= o <= length vs -> g_ctr c <= ctr x ->
         Forall (fun f => g_ctr c <= f_ctr f) fk' -> fb g w = (os, xx, g') ->
-        G (cbody c ownb0 ceb fk' o (ctr x)) os (Tend (cbody c ownb0 ceb fk' o (ctr x)) xx (J g'))
+        G (cbody c ownb0 ceb fk' o (ctr x)) os (Tend (cbody c ownb0 ceb fk' o (ctr x)) xx (wk fk' (J g') (Jf g')))
           (N (g_sc c) (g_pc c1) (SV w :: g_st c1) (fk' ++ g_base c) vs n o x)) ->
    forall ws1 g s fin1 os x g',
      G c1 ws1 (Tend c1 fin1 (fun _ _ _ => True)) s -> J g (vars_of s) (lbl_of s) (gx_of s) -> g_ctr c <= ctr (gx_of s) ->
      foldgen X fb ws1 g = (os, x, g') ->
-     G c os (Tend c (match x with Some e => Some e | None => fin1 end) (J g')) s.
+     G c os (Tend c (match x with Some e => Some e | None => fin1 end) (Jf g')) s.
 Proof.
-  intros c1 c rho lim ol P X Jg fb ownb0 ceb J Hsc Hb Hce Hn0 Hoff Hctr Hko1 Hko Ho1 Hob Hoo Hk1 Hkept Hlb HP HJg Hbody ws1 g s fin1 os x g' HA HJ Hct Ef.
-  refine (G_fold nt code c1 c X J fb ownb0 ceb Hsc Hb Hce Hn0 Hoff Hctr Hko1 Hko Ho1 Hob Hoo Hk1 Hkept Hlb _ _ Hbody ws1 g s fin1 os x g' HA HJ Hct Ef).
+  intros c1 c rho lim ol P X Jg Jf fb ownb0 ceb J Hsc Hb Hce Hn0 Hoff Hctr Hko1 Hko Ho1 Hob Hoo Hk1 Hk01 Hkept Hlb HP HJg HJf HJJ Hbody ws1 g s fin1 os x g' HA HJ Hct Ef.
+  refine (G_fold nt code c1 c X J Jf fb ownb0 ceb Hsc Hb Hce Hn0 Hoff Hctr Hko1 Hko Ho1 Hob Hoo Hk1 Hk01 Hkept Hlb _ HJf HJJ _ Hbody ws1 g s fin1 os x g' HA HJ Hct Ef).
   - intros g0 p q m y m' y' [(E & Hn & Hl & Hp) Hg] C Hm. split; [|eapply HJg; eauto].
     split; [|split; [destruct Hm; lia|split; [destruct C; lia|eapply HP; eauto]]].
     eapply envOK_same; [exact E|]. intros k Hk. apply C. intro Hc1. apply (Hkept k Hk). auto.
@@ -1274,7 +1374,7 @@ Lemma upd_inner : forall qu, Impl qu -> forall sc cur base, frameOK sc cur base 
   steps (N sc p2 (SV w :: st) fk vs n o g) (N sc (S (S p2)) (SV a :: st) fk vs1 n o g) /\
   envOK sc (add_var ce x (cur, n2)) ((x, w) :: rho) vs1 n0 (base + S n2) /\ nth_error vs1 (base + accs) = Some (SV a) /\
   let c1 := ctx_of sc (S (S p2) + length cu) st fk (base + S n2) (base + n3) o o
-              (fun i => base + S n2 <= i < base + n3 \/ kept sc (add_var ce x (cur, n2)) i) (add_var ce x (cur, n2)) n0 (ctr g) in
+              (fun i => base + S n2 <= i < base + n3 \/ kept sc (add_var ce x (cur, n2)) i) (fun _ => False) (add_var ce x (cur, n2)) n0 (ctr g) in
   G c1 (fst (den qu ((x, w) :: rho) a)) (Tend c1 (snd (den qu ((x, w) :: rho) a)) (fun _ _ _ => True))
                (N sc (S (S p2)) (SV a :: st) fk vs1 n o g).
 Proof.
@@ -1294,39 +1394,40 @@ Proof.
 Qed.
 
 (* the update phase of reduce/foreach for one source output w: store $x; load acc; update; then, for every
-   output u of the update, a body that maintains the accumulator (ghost) in slot nv of the current frame *)
+   output u of the update, a body that maintains the accumulator (ghost) in slot nv of the current frame.
+   K0C is what a continuation keeps after a forkless output at this level; JfC the tail the caller needs *)
 Lemma upd_level : forall qu, Impl qu -> forall sc cur base, frameOK sc cur base ->
   forall ce x n2 p2 sn cu n3 sn',
   comp qu (add_var ce x (cur, n2)) cur (S (S p2)) (S n2) sn = Some (cu, n3, sn') -> code_at (S (S p2)) cu ->
   forall nv, at_ p2 (Istore (cur, n2)) -> at_ (S p2) (Iload (cur, nv)) ->
-  forall rho w st fk K n0 hi o ko (P : list sv -> nat -> gx -> Prop) pcx (fbC : jv -> jv -> list jv * option exn * jv)
-         (ownbC0 : nat -> Prop) oe y,
+  forall rho w st fk (K K0C : nat -> Prop) n0 hi o ko (P : list sv -> nat -> gx -> Prop) pcx (fbC : jv -> jv -> list jv * option exn * jv)
+         (ownbC0 : nat -> Prop) oe y (JfC : jv -> list sv -> nat -> gx -> Prop),
   let ce3 := add_var ce x (cur, n2) in
   let rho3 := (x, w) :: rho in
   let lo := base + nv in
   let P3 := Jstd sc ce rho n0 lo o P in
   let cC := {| g_sc := sc; g_pc := pcx; g_st := st; g_base := fk; g_own := fun i => i = lo \/ base + S n2 <= i < hi \/ oe <= i;
-               g_keep := K; g_ce := ce3; g_n0 := n0; g_off := oe; g_koff := ko; g_ctr := ctr y |} in
+               g_keep := K; g_keep0 := K0C; g_ce := ce3; g_n0 := n0; g_off := oe; g_koff := ko; g_ctr := ctr y |} in
   let cOut := {| g_sc := sc; g_pc := pcx; g_st := st; g_base := fk; g_own := fun i => (i = lo \/ base + n2 <= i < hi) \/ oe <= i;
-                 g_keep := K; g_ce := ce; g_n0 := n0; g_off := oe; g_koff := ko; g_ctr := ctr y |} in
+                 g_keep := K; g_keep0 := K0C; g_ce := ce; g_n0 := n0; g_off := oe; g_koff := ko; g_ctr := ctr y |} in
   let JC := fun g a m z => Jstd sc ce3 rho3 n0 (base + S n2) oe P3 a m z /\ nth_error a lo = Some (SV g) in
   nv < n2 -> base + n3 <= hi -> hi <= ko -> ko <= o -> o <= oe ->
   (forall i, lo <= i < hi -> K i) -> (forall i, kept sc ce i -> K i) -> (forall i, kept sc ce i -> i < lo) ->
   (forall (O : nat -> Prop) x y k h k' h', (forall i, O i -> lo <= i < hi \/ o <= i) -> P x k h -> chg O x y -> cle k h k' h' -> P y k' h') ->
-  (forall cx (o3 : nat) x y k h k' h', g_keep cx = K -> g_koff cx = ko -> o <= o3 -> P x k h -> keepK cx x y -> cle k h k' h' -> P y k' h') ->
   (forall i, ownbC0 i -> i = lo \/ base + n3 <= i < hi) ->
+  (forall g a m z, JC g a m z -> JfC g a m z) ->
+  (forall g a b m z m' z', JfC g a m z -> chg (fun i => base + S n2 <= i < base + n3 \/ oe <= i) a b -> cle m z m' z' -> JfC g b m' z') ->
   (forall u g fk3 vs n o' z os xx g', JC g vs n z -> oe <= o' <= length vs -> ctr y <= ctr z ->
      Forall (fun f => ctr y <= f_ctr f) fk3 -> fbC g u = (os, xx, g') ->
-     G (cbody cC ownbC0 ce3 fk3 o' (ctr z)) os (Tend (cbody cC ownbC0 ce3 fk3 o' (ctr z)) xx (JC g'))
+     G (cbody cC ownbC0 ce3 fk3 o' (ctr z)) os (Tend (cbody cC ownbC0 ce3 fk3 o' (ctr z)) xx (wk fk3 (JC g') (JfC g')))
        (N sc (S (S p2) + length cu) (SV u :: st) (fk3 ++ fk) vs n o' z)) ->
   forall a vs n, Jstd sc ce rho n0 lo o P vs n y -> nth_error vs lo = Some (SV a) -> oe <= length vs ->
   forall os xx g', foldgen jv fbC (fst (den qu rho3 a)) a = (os, xx, g') ->
-  G cOut os (Tend cOut (match xx with Some e => Some e | None => snd (den qu rho3 a) end)
-                (fun a' m z => Jstd sc ce rho n0 lo o P a' m z /\ nth_error a' lo = Some (SV g')))
+  G cOut os (Tend cOut (match xx with Some e => Some e | None => snd (den qu rho3 a) end) (JfC g'))
     (N sc p2 (SV w :: st) fk vs n oe y).
 Proof.
-  intros qu IHu sc cur base Hfr ce x n2 p2 sn cu n3 sn' Eu Hatu nv A0 A1 rho w st fk K n0 hi o ko P pcx fbC ownbC0 oe y
-         ce3 rho3 lo P3 cC cOut JC Hnv Hhi Hko Hoo Hoe HK1 HK2 Hkl S1' S2' HobC HbodyC a vs n Hj Ha Hlen os xx g' Ef. pose proof (proj1 Hfr) as Hcur.
+  intros qu IHu sc cur base Hfr ce x n2 p2 sn cu n3 sn' Eu Hatu nv A0 A1 rho w st fk K K0C n0 hi o ko P pcx fbC ownbC0 oe y JfC
+         ce3 rho3 lo P3 cC cOut JC Hnv Hhi Hko Hoo Hoe HK1 HK2 Hkl S1' HobC HJJ HJf1 HbodyC a vs n Hj Ha Hlen os xx g' Ef. pose proof (proj1 Hfr) as Hcur.
   destruct (comp_mono _ _ _ _ _ _ _ _ _ Eu) as [M _]. pose proof Hj as (E & Hn & Hl & Hp).
   destruct (upd_inner qu IHu sc cur base Hfr ce x n2 p2 sn cu n3 sn' Eu Hatu nv A0 A1 rho w a st fk vs n n0 oe y lo Hnv ltac:(unfold lo; lia)
               E Hn ltac:(lia) Hlen Ha) as (vs1 & U & St1 & HE1 & Ha1 & HU). cbv zeta in HU.
@@ -1334,12 +1435,12 @@ Proof.
   assert (HP3 : P3 vs1 n y) by (unfold P3; eapply (Jstd_update _ _ _ _ _ _ lo hi); [exact S1'|exact Hj|exact U|unfold lo; lia|unfold lo; lia]).
   assert (Hk3 : forall i, kept sc ce3 i -> i = base + n2 \/ kept sc ce i).
   { intros i Hi. exact (kept_add_var _ _ _ _ _ _ (Hcur n2) Hi). }
-  assert (HG : G cC os (Tend cC (match xx with Some e => Some e | None => snd (den qu rho3 a) end) (JC g'))
+  assert (HG : G cC os (Tend cC (match xx with Some e => Some e | None => snd (den qu rho3 a) end) (JfC g'))
                  (N sc (S (S p2)) (SV a :: st) fk vs1 n oe y)).
   { refine (fold_gen (ctx_of sc (S (S p2) + length cu) st fk (base + S n2) (base + n3) oe oe
-                        (fun i => base + S n2 <= i < base + n3 \/ kept sc ce3 i) ce3 n0 (ctr y))
-              cC rho3 (base + S n2) oe P3 jv (fun g a' => nth_error a' lo = Some (SV g)) fbC ownbC0 ce3
-              eq_refl eq_refl eq_refl eq_refl eq_refl eq_refl eq_refl _ _ _ _ _ _ eq_refl _ _ HbodyC _ a _ _ os xx g' HU _ (le_n _) Ef).
+                        (fun i => base + S n2 <= i < base + n3 \/ kept sc ce3 i) (fun _ => False) ce3 n0 (ctr y))
+              cC rho3 (base + S n2) oe P3 jv (fun g a' => nth_error a' lo = Some (SV g)) JfC fbC ownbC0 ce3
+              eq_refl eq_refl eq_refl eq_refl eq_refl eq_refl eq_refl _ _ _ _ _ _ _ eq_refl _ _ _ HJJ HbodyC _ a _ _ os xx g' HU _ (le_n _) Ef).
     - simpl. lia.
     - simpl; intros; lia.
     - simpl. intros i Hi. apply HobC in Hi. unfold lo in *. lia.
@@ -1349,19 +1450,21 @@ Proof.
       + destruct (Hk3 i Hi) as [->|Hi'].
         * split; [apply HK1; unfold lo; lia|]. split; [intro Ho; apply HobC in Ho; unfold lo in *; lia|lia].
         * pose proof (Hkl i Hi'). split; [apply HK2; auto|]. split; [intro Ho; apply HobC in Ho; unfold lo in *; lia|unfold lo in *; lia].
+    - simpl. intros i [].
     - simpl. intros i Hi. destruct (Hk3 i Hi) as [->|Hi']; [unfold lo; lia|apply Hkl in Hi'; unfold lo in *; lia].
     - intros p q m z m' z' Hq C Hm. unfold P3 in *.
       eapply (Jstd_chg' _ _ _ _ _ _ lo hi); [exact S1'| |exact Hq|exact C|exact Hm]. simpl; unfold lo; intros; lia.
     - intros g p q Hg C. rewrite <- Hg. symmetry. apply C. simpl. unfold lo. lia.
+    - exact HJf1.
     - simpl. split; [|exact Ha1]. split; [exact HE1|]. split; [exact Hn|]. split; [lia|exact HP3]. }
   eapply G_pre; [exact St1|eapply chg_update; [exact U|simpl; lia]|cl|].
   refine (G_sub nt code cC cOut _ _ eq_refl eq_refl eq_refl eq_refl _ _ _ (le_n _) (le_n _) (le_n _) _ _ _ HG).
   - simpl; intros; lia.
   - intros o3 p q Kp. exact Kp.
   - intros p q Kp. exact Kp.
-  - intros s0 (e & vs4 & n4 & g4 & St4 & Ch4 & Le4 & HE4 & ((E4 & Hn4 & Hl4 & HP4) & Hg4)).
+  - intros s0 (e & vs4 & n4 & g4 & St4 & Ch4 & Le4 & HE4 & HJ4).
     exists e, vs4, n4, g4. split; [exact St4|]. split; [eapply chg_mono; [|exact Ch4]; simpl; intros; lia|].
-    split; [exact Le4|]. split; [eapply encR_lbls; [|exact HE4]; reflexivity|]. split; [exact HP4|exact Hg4].
+    split; [exact Le4|]. split; [eapply encR_lbls; [|exact HE4]; reflexivity|exact HJ4].
 Qed.
 
 Lemma impl_reduce : forall qs x qi qu, Impl qs -> Impl qi -> Impl qu -> Impl (QReduce qs x qi qu).
@@ -1373,7 +1476,7 @@ Proof.
   inversion Hc; subst cq nv' sn'. clear Hc.
   destruct (comp_mono _ _ _ _ _ _ _ _ _ Ec) as [M1 _]. destruct (comp_mono _ _ _ _ _ _ _ _ _ Ec0) as [M2 _].
   destruct (comp_mono _ _ _ _ _ _ _ _ _ Ec1) as [M3 _].
-  std_facts. pose proof (conj S1 S2) as HS. destruct (stable_sub _ _ _ _ _ _ _ _ _ _ _ _ _ HS) as [S1' S2'].
+  std_facts. pose proof (conj S1 S2) as HS. destruct (stable_sub _ _ _ _ _ _ _ _ _ _ _ _ _ _ HS) as [S1' S2'].
   assert (HJ0 : Jstd sc ce rho n0 (base + nv) o P vs n g) by (split; auto).
   set (q1 := S pc + length ci) in *.
   replace (pc + 1 + length ci) with q1 in * by (unfold q1; lia).
@@ -1392,22 +1495,22 @@ Proof.
       by (simpl; repeat (rewrite app_length; simpl); unfold q3, q2, q1; lia); rewrite Epc in * end.
   set (pend := S (S (S (S q3)))) in *.
   set (lo := base + nv) in *. set (hi := base + n3) in *.
-  set (c := ctx_of sc pend st fk lo hi o ko K ce n0 (ctr g)).
+  set (c := ctx_of sc pend st fk lo hi o ko K K0 ce n0 (ctr g)).
   cbn [Den.den].
   set (updf := fun w acc => den qu ((x, w) :: rho) acc).
   match goal with |- G _ (fst (bind _ ?f)) _ _ => set (f0 := f) end.
   pose proof (impl_inner qi IHi sc cur base Hfr ce (S pc) (S nv) sn ci n1 s1 Ec Hati rho v (SV v :: st) fk vs n n0 o g
                 ltac:(eapply envOK_lim; eauto; lia) Hn ltac:(unfold hi in *; lia) Hlen) as HA. cbv zeta in HA. fold q1 in HA.
   eapply G_pre; [one st_dup; apply steps_refl|apply chg_refl|cl|].
-  eapply G_impl; [|refine (bind_std f0 (fun _ => True) sc q1 (SV v :: st) (base + S nv) (base + n1) pend st fk lo hi o ko K ce n0 (ctr g) rho lo P
+  refine (bind_std f0 (fun _ => True) sc q1 (SV v :: st) (base + S nv) (base + n1) pend st fk lo hi o ko K K0 ce n0 (ctr g) rho lo P
             (fun i => i = lo \/ base + n1 <= i < hi) ce HS ltac:(unfold lo; lia) ltac:(unfold hi; lia) Hko Hoo (le_n _) ltac:(unfold lo, hi; lia)
-            Hkl HK1 HK2 _ eq_refl _ _ (den qi rho v) _ HA _ (le_n _))].
-  { intros s0. apply Tend_weaken. intros p m z [Hp _]. exact Hp. }
+            Hkl HK1 HK2 HK0 _ eq_refl _ _ _ (den qi rho v) _ HA _ (le_n _)).
   { intros i [->|Hi]; unfold lo, hi in *; lia. }
+  { auto. }
   { auto. }
   2:{ split; auto. }
   (* one accumulator start value s0 *)
-  intros s0 fk' vs' n' o' z [Hj _] Ho' Ht' Hfk. pose proof Hj as (E' & Hn' & Hl' & Hp').
+  intros s0 fk' vs' n' o' z [Hj _] Ho' Ht' Hfk Hwk Hin. pose proof Hj as (E' & Hn' & Hl' & Hp').
   destruct (update_some vs' lo (SV s0)) as [vs1 U]; [unfold lo, hi in *; lia|].
   destruct (update_spec _ _ _ _ U) as (UL & UN & UO).
   assert (HJ1 : Jstd sc ce rho n0 lo o P vs1 n' z) by (eapply (Jstd_update _ _ _ _ _ _ lo hi); eauto; unfold lo, hi in *; lia).
@@ -1420,7 +1523,7 @@ Proof.
   set (fbB := fun a w => (@nil jv, snd (updf w a), last_or (fst (updf w a)) a)).
   set (ownbB0 := fun i => i = lo \/ base + n2 <= i < hi).
   set (cB := {| g_sc := sc; g_pc := 0; g_st := st; g_base := fx :: F0; g_own := fun i => (i = lo \/ base + n1 <= i < hi) \/ o' <= i;
-                g_keep := K; g_ce := ce; g_n0 := n0; g_off := o'; g_koff := ko; g_ctr := ctr z |}).
+                g_keep := K; g_keep0 := K; g_ce := ce; g_n0 := n0; g_off := o'; g_koff := ko; g_ctr := ctr z |}).
   set (JgB := fun (a : jv) (a' : list sv) => nth_error a' lo = Some (SV a)).
   destruct (den qs rho v) as [ws sx] eqn:Eds. cbn [fst snd] in HB.
   destruct (reduce_foldgen updf ws s0) as (gB & EfB & HgB).
@@ -1428,8 +1531,9 @@ Proof.
                                       with Some e => Some e | None => sx end)
                             (fun a' m y => Jstd sc ce rho n0 lo o P a' m y /\ JgB gB a'))
                   (N sc (S (S q1)) (SV v :: st) (fx :: F0) vs1 n' o' z)).
-  { refine (fold_gen (ctx_of sc q2 st (fx :: F0) (base + n1) (base + n2) o' o' (fun i => base + n1 <= i < base + n2 \/ kept sc ce i) ce n0 (ctr z))
-              cB rho lo o P jv JgB fbB ownbB0 ce eq_refl eq_refl eq_refl eq_refl eq_refl eq_refl eq_refl _ _ _ _ _ _ eq_refl _ _ _
+  { refine (fold_gen (ctx_of sc q2 st (fx :: F0) (base + n1) (base + n2) o' o' (fun i => base + n1 <= i < base + n2 \/ kept sc ce i) (fun _ => False) ce n0 (ctr z))
+              cB rho lo o P jv JgB (fun a a' m y => Jstd sc ce rho n0 lo o P a' m y /\ JgB a a') fbB ownbB0 ce
+              eq_refl eq_refl eq_refl eq_refl eq_refl eq_refl eq_refl _ _ _ _ _ _ _ eq_refl _ _ _ (fun _ _ _ _ H => H) _
               ws s0 _ sx [] _ gB HB _ (le_n _) EfB).
     - simpl. lia.
     - simpl. unfold hi. intros; lia.
@@ -1438,22 +1542,34 @@ Proof.
     - simpl. unfold ownbB0. intros i [Hi|Hi].
       + split; [apply HK1; unfold lo, hi; lia|]. split; [unfold lo, hi in *; lia|unfold hi in *; lia].
       + pose proof (Hkl i Hi). split; [apply HK2; auto|]. split; [unfold lo, hi in *; lia|unfold lo, hi in *; lia].
+    - simpl. intros i [].
     - simpl. intros i Hi. apply Hkl in Hi. unfold lo, hi in *. lia.
     - intros p q m y m' y' Hq C Hm. eapply S1'; [|exact Hq|exact C|exact Hm]. simpl; unfold lo, hi; intros; lia.
     - intros a p q Hg C. unfold JgB in *. rewrite <- Hg. symmetry. apply C. simpl. unfold lo. lia.
+    - intros a p q m y m' y' [Hq Hg] C Hm. split.
+      + eapply (Jstd_chg' _ _ _ _ _ _ lo hi); [exact S1'| |exact Hq|exact C|exact Hm]. simpl; unfold lo, hi; intros; lia.
+      + unfold JgB in *. rewrite <- Hg. symmetry. apply C. simpl. unfold lo. lia.
     - (* one source output w, accumulator a *)
       intros w a fk2 vs2 m2 o2 z2 os2 x2 g2 [Hj2 Hg2] Ho2 Ht2 Hfk2 Efb. unfold fbB in Efb. inversion Efb; subst os2 x2 g2. clear Efb.
+      rewrite wk_same.
       pose proof (foldgen_last (fst (updf w a)) a) as EfC.
-      pose proof (upd_level qu IHu sc cur base Hfr ce x n2 q2 s2 cu n3 s3 Ec1 Hatu nv A3 A4 rho w st (fk2 ++ fx :: F0) K n0 hi o ko P 0
-                (fun (_ : jv) u => ([], None, u)) (fun i => i = lo) o2 z2) as HU. cbv zeta in HU. fold lo in HU.
-      refine (HU ltac:(lia) (le_n _) Hko Hoo ltac:(simpl in Ho2; lia) HK1 HK2 Hkl S1' S2' _ _ a vs2 m2 Hj2 Hg2 ltac:(simpl in Ho2; lia) [] None _ EfC).
+      pose proof (upd_level qu IHu sc cur base Hfr ce x n2 q2 s2 cu n3 s3 Ec1 Hatu nv A3 A4 rho w st (fk2 ++ fx :: F0) K
+                (match fk2 with [] => K | _ :: _ => K end) n0 hi o ko P 0
+                (fun (_ : jv) u => ([], None, u)) (fun i => i = lo) o2 z2
+                (fun a0 a' m y => Jstd sc ce rho n0 lo o P a' m y /\ JgB a0 a')) as HU. cbv zeta in HU. fold lo in HU.
+      refine (HU ltac:(lia) (le_n _) Hko Hoo ltac:(simpl in Ho2; lia) HK1 HK2 Hkl S1' _ _ _ _ a vs2 m2 Hj2 Hg2 ltac:(simpl in Ho2; lia) [] None _ EfC).
       + intros i ->. auto.
+      + intros a0 p m y [(_ & _ & _ & Hp3) Hg]. split; auto.
+      + intros a0 p q m y m' y' [Hq Hg] C Hm. split.
+        * eapply (Jstd_chg' _ _ _ _ _ _ lo hi); [exact S1'| |exact Hq|exact C|exact Hm]. simpl; unfold lo, hi in *; simpl in Ho2; intros; lia.
+        * unfold JgB in *. rewrite <- Hg. symmetry. apply C. simpl. unfold lo. simpl in Ho2. lia.
       + intros u g3 fk3 vs3 m3 o3 z3 os3 x3 g3' [Hj3 Hg3] Ho3 Ht3 Hfk3 Efc. inversion Efc; subst os3 x3 g3'. clear Efc.
         pose proof Hj3 as (E3 & Hn3 & Hl3 & Hp3).
         destruct (update_some vs3 lo (SV u)) as [vs4 U4]; [unfold lo, hi in *; simpl in Ho2; lia|].
         destruct (update_spec _ _ _ _ U4) as (UL4 & UN4 & UO4).
         eapply G_end; [one st_store; one st_backtrack; apply steps_refl
                       |eapply chg_update; [exact U4|simpl; auto]|cl|reflexivity|].
+        apply wk_intro; [intros p m y [(_ & _ & _ & Hp3') Hg']; split; auto|].
         split; [|exact UN4].
         eapply Jstd_update_gen; [exact Hj3|exact U4| |].
         * intros Hk. apply (kept_add_var _ _ _ _ _ _ (Hcur n2)) in Hk. destruct Hk as [Hk|Hk]; [unfold lo in *; lia|apply Hkl in Hk; lia].
@@ -1470,16 +1586,15 @@ Proof.
   - destruct sx as [ex|]; simpl in HE4; cbn [fst snd].
     + destruct (encR_some _ _ _ _ _ HE4) as (y & ->).
       eapply G_end; [eapply steps_trans; [exact St|eapply steps_trans; [exact St4|eapply fork_transparent; eauto]]
-                    |exact Ch'|exact Le'|exact HE4|exact HJ4].
+                    |exact Ch'|exact Le'|exact HE4|apply Hin; exact HJ4].
     + subst e. rewrite (HgB acc eq_refl) in Hg4.
       eapply G_single with (vs3 := vs4) (n3 := n4) (o3 := o') (g3 := g4);
         [eapply steps_trans; [exact St|eapply steps_trans; [exact St4|]]|exact Ch'|exact Le'|simpl; destruct Ch' as [L _]; simpl in Ho'; lia|].
       * one st_popfork. one bt_fork_none. one st_pop. one st_load. apply steps_refl.
-      * intros vs5 n5 g5 Kp L5. destruct HJ4 as [HJ4 _]. split; auto.
-        refine (Jstd_stable_cx _ _ _ _ _ _ _ _ _ _ _ K S1' S2' HK2 _ _ o' _ _ _ _ _ _ _ HJ4 Kp L5); [reflexivity|reflexivity|lia].
+      * intros vs5 n5 g5 Kp L5. eapply Hwk; [apply Hin; exact HJ4|exact Kp|exact L5].
   - simpl in HE4. cbn [fst snd]. destruct (encR_some _ _ _ _ _ HE4) as (y & ->).
     eapply G_end; [eapply steps_trans; [exact St|eapply steps_trans; [exact St4|eapply fork_transparent; eauto]]
-                  |exact Ch'|exact Le'|exact HE4|exact HJ4].
+                  |exact Ch'|exact Le'|exact HE4|apply Hin; exact HJ4].
 Qed.
 
 Lemma foreach_upd_foldgen : forall (ext : jv -> result) us a,
@@ -1544,7 +1659,7 @@ Proof.
       exists cx. split; [auto|]. split; [exact (proj1 (comp_mono _ _ _ _ _ _ _ _ _ Ex))|auto].
     - inversion Hc; subst. exists []. auto. }
   destruct Hsh as (cx & -> & M4 & Hx). clear Hc.
-  std_facts. pose proof (conj S1 S2) as HS. destruct (stable_sub _ _ _ _ _ _ _ _ _ _ _ _ _ HS) as [S1' S2'].
+  std_facts. pose proof (conj S1 S2) as HS. destruct (stable_sub _ _ _ _ _ _ _ _ _ _ _ _ _ _ HS) as [S1' S2'].
   assert (HJ0 : Jstd sc ce rho n0 (base + nv) o P vs n g) by (split; auto).
   uncons Hat A0. destruct (code_at_app _ _ _ _ Hat) as [Hati Hat2]. fold q1 in Hat2.
   uncons Hat2 A1. destruct (code_at_app _ _ _ _ Hat2) as [Hats Hat3]. fold q2 in Hat3.
@@ -1556,7 +1671,7 @@ Proof.
       by (simpl; repeat (rewrite app_length; simpl); unfold q3, q2, q1; lia); rewrite Epc in * end.
   set (pend := S (S q3) + length cx) in *.
   set (lo := base + nv) in *. set (hi := base + nv') in *.
-  set (c := ctx_of sc pend st fk lo hi o ko K ce n0 (ctr g)).
+  set (c := ctx_of sc pend st fk lo hi o ko K K0 ce n0 (ctr g)).
   cbn [Den.den].
   set (updf := fun w acc => den qu ((x, w) :: rho) acc).
   set (extf := fun w u => match ext with Some e => den e ((x, w) :: rho) u | None => ([u], None) end).
@@ -1564,14 +1679,14 @@ Proof.
   pose proof (impl_inner qi IHi sc cur base Hfr ce (S pc) (S nv) sn ci n1 s1 Ec Hati rho v (SV v :: st) fk vs n n0 o g
                 ltac:(eapply envOK_lim; eauto; lia) Hn ltac:(unfold hi in *; lia) Hlen) as HA. cbv zeta in HA. fold q1 in HA.
   eapply G_pre; [one st_dup; apply steps_refl|apply chg_refl|cl|].
-  eapply G_impl; [|refine (bind_std f0 (fun _ => True) sc q1 (SV v :: st) (base + S nv) (base + n1) pend st fk lo hi o ko K ce n0 (ctr g) rho lo P
+  refine (bind_std f0 (fun _ => True) sc q1 (SV v :: st) (base + S nv) (base + n1) pend st fk lo hi o ko K K0 ce n0 (ctr g) rho lo P
             (fun i => i = lo \/ base + n1 <= i < hi) ce HS ltac:(unfold lo; lia) ltac:(unfold hi; lia) Hko Hoo (le_n _) ltac:(unfold lo, hi; lia)
-            Hkl HK1 HK2 _ eq_refl _ _ (den qi rho v) _ HA _ (le_n _))].
-  { intros s0. apply Tend_weaken. intros p m z [Hp _]. exact Hp. }
+            Hkl HK1 HK2 HK0 _ eq_refl _ _ _ (den qi rho v) _ HA _ (le_n _)).
   { intros i [->|Hi]; unfold lo, hi in *; lia. }
   { auto. }
+  { auto. }
   2:{ split; auto. }
-  intros s0 fk' vs' n' o' z [Hj _] Ho' Ht' Hfk. pose proof Hj as (E' & Hn' & Hl' & Hp').
+  intros s0 fk' vs' n' o' z [Hj _] Ho' Ht' Hfk Hwk Hin. pose proof Hj as (E' & Hn' & Hl' & Hp').
   destruct (update_some vs' lo (SV s0)) as [vs1 U]; [unfold lo, hi in *; lia|].
   destruct (update_spec _ _ _ _ U) as (UL & UN & UO).
   assert (HJ1 : Jstd sc ce rho n0 lo o P vs1 n' z) by (eapply (Jstd_update _ _ _ _ _ _ lo hi); eauto; unfold lo, hi in *; lia).
@@ -1581,16 +1696,49 @@ Proof.
   pose proof (impl_inner qs IHs sc cur base Hfr ce (S q1) n1 s1 cs n2 s2 Ec0 Hats rho v st F0 vs1 n' n0 o' z
                 ltac:(eapply envOK_lim; eauto; unfold lo; lia) Hn1 ltac:(unfold hi in *; lia) ltac:(lia)) as HB. cbv zeta in HB. fold q2 in HB.
   set (cB := cbody c (fun i => i = lo \/ base + n1 <= i < hi) ce fk' o' (ctr z)).
+  set (KB := match fk' with [] => K0 | _ :: _ => K end).
   set (JgB := fun (a : jv) (a' : list sv) => nth_error a' lo = Some (SV a)).
+  set (JA := fun a' m (y : gx) => Jstd sc ce rho n0 lo o P a' m y /\ True).
+  set (JfA := fun a' m (y : gx) => P a' m y /\ True).
+  set (TA := wk fk' JA JfA).
+  set (JB := fun (a : jv) a' m (y : gx) => Jstd sc ce rho n0 lo o P a' m y /\ JgB a a').
+  (* facts about the invariants of the three levels *)
+  assert (HKB : forall i, KB i -> K i) by (intros i Hi; exact (wk_K _ _ _ _ HK0 Hi)).
+  assert (JAchg : forall (O : nat -> Prop), (forall i, O i -> lo <= i < hi \/ o <= i) ->
+            forall p q m y m' y', JA p m y -> chg O p q -> cle m y m' y' -> JA q m' y').
+  { intros O HO p q m y m' y' [Hq _] C Hm. split; auto.
+    eapply (Jstd_chg' _ _ _ _ _ _ lo hi); [exact S1'| |exact Hq|exact C|exact Hm]. intros i Hi. split; [auto|]. apply HO in Hi. unfold lo in *. lia. }
+  assert (JfAchg : forall (O : nat -> Prop), (forall i, O i -> lo <= i < hi \/ o <= i) ->
+            forall p q m y m' y', JfA p m y -> chg O p q -> cle m y m' y' -> JfA q m' y').
+  { intros O HO p q m y m' y' [Hq _] C Hm. split; auto. eapply S1'; eauto. }
+  assert (TAchg : forall (O : nat -> Prop), (forall i, O i -> lo <= i < hi \/ o <= i) ->
+            forall p q m y m' y', TA p m y -> chg O p q -> cle m y m' y' -> TA q m' y').
+  { intros O HO. apply wk_chg; [apply JAchg; auto|apply JfAchg; auto]. }
+  assert (JAK : forall p q m y m' y', JA p m y -> keepX K p q -> cle m y m' y' -> JA q m' y').
+  { intros p q m y m' y' [Hq _] C Hm. split; auto. exact (Jstd_stable_cx _ _ _ _ _ _ _ _ _ _ _ S1' S2' HK2 HK0 _ _ _ _ _ _ Hq C Hm). }
+  assert (JfAK : forall p q m y m' y', JfA p m y -> keepX K0 p q -> cle m y m' y' -> JfA q m' y').
+  { intros p q m y m' y' [Hq _] C Hm. split; auto. exact (S2' K0 _ _ _ _ _ _ (fun i H => H) Hq C Hm). }
+  assert (TAK : forall p q m y m' y', TA p m y -> keepX KB p q -> cle m y m' y' -> TA q m' y').
+  { unfold TA, KB. destruct fk'; simpl; auto. }
+  assert (JBchg : forall (O : nat -> Prop), (forall i, O i -> lo < i /\ (lo <= i < hi \/ o <= i)) ->
+            forall a p q m y m' y', JB a p m y -> chg O p q -> cle m y m' y' -> JB a q m' y').
+  { intros O HO a p q m y m' y' [Hq Hg] C Hm. split.
+    - eapply (Jstd_chg' _ _ _ _ _ _ lo hi); [exact S1'| |exact Hq|exact C|exact Hm]. intros i Hi. apply HO in Hi. unfold lo in *. split; [tauto|lia].
+    - unfold JgB in *. rewrite <- Hg. symmetry. apply C. intro Hi. apply HO in Hi. lia. }
+  assert (JBK : forall a p q m y m' y', JB a p m y -> keepX K p q -> cle m y m' y' -> JB a q m' y').
+  { intros a p q m y m' y' [Hq Hg] C Hm. split.
+    - exact (Jstd_stable_cx _ _ _ _ _ _ _ _ _ _ _ S1' S2' HK2 HK0 _ _ _ _ _ _ Hq C Hm).
+    - unfold JgB in *. rewrite <- Hg. symmetry. apply C. apply HK1. unfold lo, hi in *. lia. }
+  assert (JBTA : forall a p m y, JB a p m y -> TA p m y).
+  { intros a p m y [Hq _]. apply wk_intro; [intros p' m'' y' [(_ & _ & _ & Hp'') _]; split; auto|split; auto]. }
   destruct (den qs rho v) as [ws sx] eqn:Eds. cbn [fst snd] in HB.
   destruct (foreach_foldgen updf extf ws s0) as (gB & EfB).
   assert (HGB : G cB (fst (foreach_fold updf extf ws s0))
-                  (Tend cB (match snd (foreach_fold updf extf ws s0) with Some e => Some e | None => sx end)
-                     (fun a' m y => Jstd sc ce rho n0 lo o P a' m y /\ JgB gB a'))
+                  (Tend cB (match snd (foreach_fold updf extf ws s0) with Some e => Some e | None => sx end) TA)
                   (N sc (S q1) (SV v :: st) F0 vs1 n' o' z)).
-  { refine (fold_gen (ctx_of sc q2 st F0 (base + n1) (base + n2) o' o' (fun i => base + n1 <= i < base + n2 \/ kept sc ce i) ce n0 (ctr z))
-              cB rho lo o P jv JgB (foreach_step updf extf) (fun i => i = lo \/ base + n2 <= i < hi) ce
-              eq_refl eq_refl eq_refl eq_refl eq_refl eq_refl eq_refl _ _ _ _ _ _ eq_refl _ _ _
+  { refine (fold_gen (ctx_of sc q2 st F0 (base + n1) (base + n2) o' o' (fun i => base + n1 <= i < base + n2 \/ kept sc ce i) (fun _ => False) ce n0 (ctr z))
+              cB rho lo o P jv JgB (fun _ => TA) (foreach_step updf extf) (fun i => i = lo \/ base + n2 <= i < hi) ce
+              eq_refl eq_refl eq_refl eq_refl eq_refl eq_refl eq_refl _ _ _ _ _ _ _ eq_refl _ _ _ JBTA _
               ws s0 _ sx _ _ gB HB _ (le_n _) EfB).
     - simpl. lia.
     - simpl. unfold hi. intros; lia.
@@ -1599,18 +1747,30 @@ Proof.
     - simpl. intros i [Hi|Hi].
       + split; [apply HK1; unfold lo, hi; lia|]. split; [unfold lo, hi in *; lia|unfold hi in *; lia].
       + pose proof (Hkl i Hi). split; [apply HK2; auto|]. split; [unfold lo, hi in *; lia|unfold lo, hi in *; lia].
+    - simpl. intros i [].
     - simpl. intros i Hi. apply Hkl in Hi. unfold lo, hi in *. lia.
     - intros p q m y m' y' Hq C Hm. eapply S1'; [|exact Hq|exact C|exact Hm]. simpl; unfold lo, hi; intros; lia.
     - intros a p q Hg C. unfold JgB in *. rewrite <- Hg. symmetry. apply C. simpl. unfold lo. lia.
+    - intros _ p q m y m' y' Hq C Hm. eapply TAchg; [|exact Hq|exact C|exact Hm]. simpl; unfold lo, hi; intros; lia.
     - (* one source output w, accumulator a *)
       intros w a fk2 vs2 m2 o2 z2 os2 x2 g2 [Hj2 Hg2] Ho2 Ht2 Hfk2 Efb. unfold foreach_step in Efb. simpl in Ho2.
       pose proof (foreach_upd_foldgen (extf w) (fst (updf w a)) a) as EfC.
       inversion Efb; subst os2 x2 g2. clear Efb.
-      pose proof (upd_level qu IHu sc cur base Hfr ce x n2 q2 s2 cu n3 s3 Ec1 Hatu nv A3 A4 rho w st (fk2 ++ F0) K n0 hi o ko P pend
-                (fun (_ : jv) u => (fst (extf w u), snd (extf w u), u)) (fun i => i = lo \/ base + n3 <= i < hi) o2 z2) as HU.
+      set (KC := match fk2 with [] => KB | _ :: _ => K end).
+      set (TB := fun (a0 : jv) => wk fk2 (JB a0) TA).
+      assert (HKC : forall i, KC i -> K i) by (intros i Hi; exact (wk_K _ _ _ _ HKB Hi)).
+      assert (TBK : forall a0 p q m y m' y', TB a0 p m y -> keepX KC p q -> cle m y m' y' -> TB a0 q m' y').
+      { intros a0. unfold TB, KC. destruct fk2; simpl; [apply TAK|apply JBK]. }
+      assert (TBchg : forall (O : nat -> Prop), (forall i, O i -> lo < i /\ (lo <= i < hi \/ o <= i)) ->
+                forall a0 p q m y m' y', TB a0 p m y -> chg O p q -> cle m y m' y' -> TB a0 q m' y').
+      { intros O HO a0. apply wk_chg; [apply JBchg; auto|apply TAchg; intros i Hi; apply HO in Hi; tauto]. }
+      pose proof (upd_level qu IHu sc cur base Hfr ce x n2 q2 s2 cu n3 s3 Ec1 Hatu nv A3 A4 rho w st (fk2 ++ F0) K KC n0 hi o ko P pend
+                (fun (_ : jv) u => (fst (extf w u), snd (extf w u), u)) (fun i => i = lo \/ base + n3 <= i < hi) o2 z2 TB) as HU.
       cbv zeta in HU. fold lo in HU.
-      refine (HU ltac:(lia) ltac:(unfold hi; lia) Hko Hoo ltac:(simpl in Ho2; lia) HK1 HK2 Hkl S1' S2' _ _ a vs2 m2 Hj2 Hg2 ltac:(simpl in Ho2; lia) _ _ _ EfC).
+      refine (HU ltac:(lia) ltac:(unfold hi; lia) Hko Hoo ltac:(simpl in Ho2; lia) HK1 HK2 Hkl S1' _ _ _ _ a vs2 m2 Hj2 Hg2 ltac:(simpl in Ho2; lia) _ _ _ EfC).
       + intros i Hi. exact Hi.
+      + intros a0 p m y [(_ & _ & _ & Hp3) Hg]. apply wk_intro; [apply JBTA|split; auto].
+      + intros a0 p q m y m' y' Hq C Hm. eapply TBchg; [|exact Hq|exact C|exact Hm]. simpl. unfold lo, hi in *. intros; lia.
       + (* one update output u: dup; store acc; extract *)
         intros u g3 fk3 vs3 m3 o3 z3 os3 x3 g3' [Hj3 Hg3] Ho3 Ht3 Hfk3 Efc. inversion Efc; subst os3 x3 g3'. clear Efc. simpl in Ho3, Ht3.
         pose proof Hj3 as (E3 & Hn3 & Hl3 & Hp3).
@@ -1624,20 +1784,26 @@ Proof.
           eapply (Jstd_update _ _ _ _ _ _ lo hi); [exact S1'|exact Hp3|exact U4|unfold lo, hi; lia|lia]. }
         eapply G_pre; [one st_dup; one st_store; apply steps_refl|eapply chg_update; [exact U4|simpl; auto]|cl|].
         set (JC := fun a' m (y : gx) => Jstd sc ce3 ((x, w) :: rho) n0 (base + S n2) o2 P3 a' m y /\ nth_error a' lo = Some (SV u)).
-        assert (JCk : forall cx' oo p q m y m' y', g_keep cx' = K -> g_koff cx' = ko -> o <= oo -> JC p m y -> keepK cx' p q -> cle m y m' y' -> JC q m' y').
-        { intros cx' oo p q m y m' y' HKe Hkoe Hoo' [(Eq & Hnq & Hlq & Hpq) Hgq] Kp Hm. split.
+        assert (JCk : forall p q m y m' y', JC p m y -> keepX K p q -> cle m y m' y' -> JC q m' y').
+        { intros p q m y m' y' [(Eq & Hnq & Hlq & Hpq) Hgq] Kp Hm. split.
           - split; [eapply envOK_keep; [exact Eq|exact Kp|]|].
-            + rewrite HKe. intros i Hi. apply (kept_add_var _ _ _ _ _ _ (Hcur n2)) in Hi. destruct Hi as [->|Hi]; [apply HK1; unfold lo, hi; lia|auto].
+            + intros i Hi. apply (kept_add_var _ _ _ _ _ _ (Hcur n2)) in Hi. destruct Hi as [->|Hi]; [apply HK1; unfold lo, hi; lia|auto].
             + split; [destruct Hm; lia|]. split; [destruct Kp; lia|].
-              refine (Jstd_stable_cx cx' _ _ _ _ _ _ _ _ _ _ K S1' S2' HK2 HKe Hkoe oo _ _ _ _ _ _ Hoo' Hpq Kp Hm).
-          - rewrite <- Hgq. symmetry. apply Kp. rewrite HKe. apply HK1. unfold lo, hi. lia. }
+              exact (Jstd_stable_cx _ _ _ _ _ _ _ _ _ _ _ S1' S2' HK2 HK0 _ _ _ _ _ _ Hpq Kp Hm).
+          - rewrite <- Hgq. symmetry. apply Kp. apply HK1. unfold lo, hi. lia. }
+        assert (JCTB : forall p m y, JC p m y -> TB u p m y).
+        { intros p m y [(_ & _ & _ & Hp3') Hg]. apply wk_intro; [apply JBTA|split; auto]. }
+        set (PD := wk fk3 JC (TB u)).
+        assert (PDK : forall p q m y m' y', PD p m y -> keepX (match fk3 with [] => KC | _ :: _ => K end) p q -> cle m y m' y' -> PD q m' y').
+        { unfold PD. destruct fk3; simpl; [apply TBK|apply JCk]. }
+        assert (PD0 : PD vs4 m3 z3) by (apply wk_intro; [exact JCTB|split; [exact HJ4|exact UN4]]).
         unfold extf. destruct ext as [e|].
         * set (cbx := cbody {| g_sc := sc; g_pc := pend; g_st := st; g_base := fk2 ++ F0;
                                g_own := fun i => i = lo \/ base + S n2 <= i < hi \/ o2 <= i;
-                               g_keep := K; g_ce := ce3; g_n0 := n0; g_off := o2; g_koff := ko; g_ctr := ctr z2 |}
+                               g_keep := K; g_keep0 := KC; g_ce := ce3; g_n0 := n0; g_off := o2; g_koff := ko; g_ctr := ctr z2 |}
                             (fun i => i = lo \/ base + n3 <= i < hi) ce3 fk3 o3 (ctr z3)).
           apply (impl_body e IHx sc cur base Hfr ce3 (S (S q3)) n3 s3 cx nv' sn' Hx Hatx cbx
-                   ((x, w) :: rho) u vs4 m3 o3 z3 JC); subst cbx; simpl.
+                   ((x, w) :: rho) u vs4 m3 o3 z3 PD); subst cbx; simpl.
           -- reflexivity.
           -- reflexivity.
           -- reflexivity.
@@ -1645,28 +1811,30 @@ Proof.
           -- intros i [Hi|Hi]; [left; right; unfold hi; lia|right; lia].
           -- intros; apply HK1; unfold lo, hi; lia.
           -- intros i Hi. apply (kept_add_var _ _ _ _ _ _ (Hcur n2)) in Hi. destruct Hi as [->|Hi]; [apply HK1; unfold lo, hi; lia|auto].
+          -- intros i Hi. exact (wk_K _ _ _ _ HKC Hi).
           -- destruct HJ4 as (E4 & _). eapply envOK_lim; eauto. lia.
           -- lia.
           -- unfold hi in *. lia.
           -- simpl in Ho2. lia.
           -- lia.
           -- lia.
-          -- intros p q m y m' y' [(Eq & Hnq & Hlq & Hpq) Hgq] C Hm. split.
-             ++ split; [eapply envOK_chg; [exact Eq|exact C|simpl; intros; unfold hi in *; lia]|]. split; [destruct Hm; lia|]. split; [destruct C; lia|].
-                unfold P3 in *. eapply (Jstd_chg' _ _ _ _ _ _ lo hi); [exact S1'| |exact Hpq|exact C|exact Hm]. simpl; unfold lo, hi; intros; lia.
-             ++ rewrite <- Hgq. symmetry. apply C. unfold lo. lia.
-          -- intros oo p q m y m' y' Hoo' Hq Kp Hm. refine (JCk _ oo p q m y m' y' _ _ _ Hq Kp Hm); [reflexivity|reflexivity|simpl in Ho2; lia].
-          -- split; [exact HJ4|exact UN4].
+          -- unfold PD. apply wk_chg.
+             ++ intros p q m y m' y' [(Eq & Hnq & Hlq & Hpq) Hgq] C Hm. split.
+                ** split; [eapply envOK_chg; [exact Eq|exact C|simpl; intros; unfold hi in *; lia]|]. split; [destruct Hm; lia|]. split; [destruct C; lia|].
+                   unfold P3 in *. eapply (Jstd_chg' _ _ _ _ _ _ lo hi); [exact S1'| |exact Hpq|exact C|exact Hm]. simpl; unfold lo, hi; intros; lia.
+                ** rewrite <- Hgq. symmetry. apply C. unfold lo. lia.
+             ++ intros p q m y m' y' Hq C Hm. eapply TBchg; [|exact Hq|exact C|exact Hm]. simpl. unfold lo, hi in *. simpl in Ho2. intros; lia.
+          -- exact PDK.
+          -- exact PD0.
         * destruct Hx as [-> ->]. cbn [fst snd].
           eapply G_single with (o3 := o3); [simpl g_pc; simpl g_st; simpl g_base; simpl g_sc; unfold pend; simpl; rewrite Nat.add_0_r; apply steps_refl
                            |apply chg_refl|cl|simpl; destruct (update_spec _ _ _ _ U4); lia|].
-          intros vs5 n5 g5 Kp L5. refine (JCk _ o3 vs4 vs5 m3 z3 n5 g5 _ _ _ _ Kp L5); [reflexivity|reflexivity|simpl in Ho2; lia|].
-          split; [exact HJ4|exact UN4].
+          intros vs5 n5 g5 Kp L5. exact (PDK _ _ _ _ _ _ PD0 Kp L5).
     - split; [exact HJ1|exact UN]. }
   unfold f0. try rewrite Eds. fold updf. fold extf. cbv beta iota.
   destruct (foreach_fold updf extf ws s0) as [os [ex|]] eqn:Eff; cbn [seq fst snd] in *.
-  - eapply G_impl; [|exact HGB]. intros s1'. apply Tend_weaken. intros p m y [Hq _]. split; auto.
-  - rewrite app_nil_r. eapply G_impl; [|exact HGB]. intros s1'. apply Tend_weaken. intros p m y [Hq _]. split; auto.
+  - exact HGB.
+  - rewrite app_nil_r. exact HGB.
 Qed.
 
 End C.
